@@ -249,35 +249,37 @@ theorem prefix_getElem? {α} {l₁ l₂ : List α} {k : Nat} {a : α} (h : l₁ 
     parameters) is represented by the heap closure `v' = cref id`: a function of arity `n` with
     upvalues, such that *calling it is calling the closure* — entered with any `n` arguments it
     returns to its caller the value `evalCore` assigns to the body under `params ↦ args`, and
-    fails with the arithmetic error when the body does. -/
-def CloRel (h : Heap) (n : Nat) (v v' : Val) : Prop :=
+    fails with the arithmetic error when the body does. The relation is indexed by the fuel
+    `K` up to which this is known (recursive groups are related at every `K` by induction on `K`,
+    `rec_group_correct`); `∀ K, CloRel K …` is the relation proper. -/
+def CloRel (K : Nat) (h : Heap) (n : Nat) (v v' : Val) : Prop :=
   ∃ cs idx env id g gupv nm params body,
     v = .clos cs idx env ∧ v' = .cref id ∧ h.clos[id]? = some (g, gupv) ∧
     cs[idx]? = some (nm, params, body) ∧ params.length = n ∧ n ≠ 0 ∧ g.args = n ∧
-    ∀ (fuel : Nat) (vs : List Val), vs.length = n →
+    ∀ (fuel : Nat) (vs : List Val), fuel ≤ K → vs.length = n →
       (∀ r, evalCore fuel (bindAll params vs (recEnv cs env)) body = .ok r → Returns g gupv h vs r) ∧
       (evalCore fuel (bindAll params vs (recEnv cs env)) body = .error .arith →
         ExecErr g gupv h 0 vs .arith)
 
 /-- how the machine represents the value of variable `x`: function variables (those of `Φ`, with
     their arity) by a related heap closure, all others by the value itself -/
-def RV (h : Heap) (Φ : List (Sym × Nat)) (x : Sym) (v v' : Val) : Prop :=
+def RV (K : Nat) (h : Heap) (Φ : List (Sym × Nat)) (x : Sym) (v v' : Val) : Prop :=
   match lookupScope Φ x with
   | none => v = v'
-  | some n => CloRel h n v v'
+  | some n => CloRel K h n v v'
 
 /-- every variable of the environment lives in the stack slot the compiler recorded for it, or,
     when it is not a stack variable of this function and the function refers to it, in the
     upvalue of that name -/
-def Agree (h : Heap) (Φ : List (Sym × Nat)) (fv : List Sym) (upv : List Val)
+def Agree (K : Nat) (h : Heap) (Φ : List (Sym × Nat)) (fv : List Sym) (upv : List Val)
     (scopes : List (List (Sym × Nat))) (ρ : Env) (stk : List Val) : Prop :=
   ∀ x v, lookup ρ x = some v →
-    (∃ i v', lookupScopes scopes x = some i ∧ stk[i]? = some v' ∧ RV h Φ x v v') ∨
+    (∃ i v', lookupScopes scopes x = some i ∧ stk[i]? = some v' ∧ RV K h Φ x v v') ∨
     (lookupScopes scopes x = none ∧
-      ∀ k, indexOfSym fv x = some k → ∃ v', upv[k]? = some v' ∧ RV h Φ x v v')
+      ∀ k, indexOfSym fv x = some k → ∃ v', upv[k]? = some v' ∧ RV K h Φ x v v')
 
-theorem Agree.append {h Φ fv upv scopes ρ stk} (ha : Agree h Φ fv upv scopes ρ stk) (l : List Val) :
-    Agree h Φ fv upv scopes ρ (stk ++ l) := by
+theorem Agree.append {K h Φ fv upv scopes ρ stk} (ha : Agree K h Φ fv upv scopes ρ stk) (l : List Val) :
+    Agree K h Φ fv upv scopes ρ (stk ++ l) := by
   intro x v hx
   rcases ha x v hx with ⟨i, v', hi, hv, hr⟩ | hr
   · refine Or.inl ⟨i, v', hi, ?_, hr⟩
@@ -288,8 +290,8 @@ theorem Agree.append {h Φ fv upv scopes ρ stk} (ha : Agree h Φ fv upv scopes 
     rw [List.getElem?_append_left this]; exact hv
   · exact Or.inr hr
 
-theorem Agree.enter {h Φ fv upv scopes ρ stk} (ha : Agree h Φ fv upv scopes ρ stk) :
-    Agree h Φ fv upv ([] :: scopes) ρ stk := by
+theorem Agree.enter {K h Φ fv upv scopes ρ stk} (ha : Agree K h Φ fv upv scopes ρ stk) :
+    Agree K h Φ fv upv ([] :: scopes) ρ stk := by
   intro x v hx
   rcases ha x v hx with ⟨i, v', hi, hv, hr⟩ | ⟨hn, hr⟩
   · exact Or.inl ⟨i, v', by simpa [lookupScopes, lookupScope] using hi, hv, hr⟩
@@ -303,11 +305,11 @@ def BodySpec (seIdx : Nat) (Φ : List (Sym × Nat)) (e : Expr) : Prop :=
       (compileBody seIdx e tail b st).2.scopes = (N ++ S) :: rest ∧
       (compileBody seIdx e tail b st).2.stackSize = st.stackSize + N.length + 1 ∧
       Ext st (compileBody seIdx e tail b st).2 ∧
-      ∀ (fn : Fn) (upv : List Val) (fv : List Sym) (h : Heap) (fuel : Nat) (ρ : Env)
-        (stk : List Val),
+      ∀ (K fuel : Nat), fuel ≤ K + 1 →
+      ∀ (fn : Fn) (upv : List Val) (fv : List Sym) (h : Heap) (ρ : Env) (stk : List Val),
         SegAt fn.instrs b (compileBody seIdx e tail b st).1 →
         Tables (compileBody seIdx e tail b st).2 fn fv →
-        stk.length = st.stackSize → Agree h Φ fv upv st.scopes ρ stk → lookup ρ dummySym = none →
+        stk.length = st.stackSize → Agree K h Φ fv upv st.scopes ρ stk → lookup ρ dummySym = none →
         (∀ v, evalCore fuel ρ e = .ok v →
           ∃ L : List Val, L.length = N.length ∧
             Done fn upv h tail b stk (b + (compileBody seIdx e tail b st).1.length) (stk ++ L) v) ∧
@@ -319,11 +321,11 @@ def WrapSpec (seIdx : Nat) (Φ : List (Sym × Nat)) (e : Expr) : Prop :=
       (compileE seIdx e tail b st).2.scopes = st.scopes ∧
       (compileE seIdx e tail b st).2.stackSize = st.stackSize + 1 ∧
       Ext st (compileE seIdx e tail b st).2 ∧
-      ∀ (fn : Fn) (upv : List Val) (fv : List Sym) (h : Heap) (fuel : Nat) (ρ : Env)
-        (stk : List Val),
+      ∀ (K fuel : Nat), fuel ≤ K + 1 →
+      ∀ (fn : Fn) (upv : List Val) (fv : List Sym) (h : Heap) (ρ : Env) (stk : List Val),
         SegAt fn.instrs b (compileE seIdx e tail b st).1 →
         Tables (compileE seIdx e tail b st).2 fn fv →
-        stk.length = st.stackSize → Agree h Φ fv upv st.scopes ρ stk → lookup ρ dummySym = none →
+        stk.length = st.stackSize → Agree K h Φ fv upv st.scopes ρ stk → lookup ρ dummySym = none →
         (∀ v, evalCore fuel ρ e = .ok v →
             Done fn upv h tail b stk (b + (compileE seIdx e tail b st).1.length) stk v) ∧
         (evalCore fuel ρ e = .error .arith → ExecErr fn upv h b stk .arith)
@@ -359,12 +361,12 @@ theorem wrap_of_body {seIdx : Nat} {Φ : List (Sym × Nat)} {e : Expr} (hb : Bod
     · rename_i h0; simp [hss', h0]
     · simp [FState.emit, adjustSize_slide, hss']
       omega
-  · intro fn upv fv h fuel ρ stk hseg htab hlen hag hdum
+  · intro K fuel hK fn upv fv h ρ stk hseg htab hlen hag hdum
     have hcode : (compileE seIdx e tail b st).1 =
         (compileBody seIdx e tail b st.enterScope).1 ++ slideCode N.length := by
       simp [compileE, finishScope, hex]
     rw [hcode] at hseg ⊢
-    obtain ⟨hok, herr⟩ := hdyn fn upv fv h fuel ρ stk hseg.left (htab.of_ext hsame.ext)
+    obtain ⟨hok, herr⟩ := hdyn K fuel (by omega) fn upv fv h ρ stk hseg.left (htab.of_ext hsame.ext)
       (by simpa [FState.enterScope] using hlen) (by simpa [FState.enterScope] using hag.enter) hdum
     refine ⟨fun v hv => ?_, herr⟩
     obtain ⟨L, hL, hex⟩ := hok v hv
@@ -530,9 +532,9 @@ theorem evalList_length : ∀ (fuel : Nat) (ρ : Env) (es : List Expr) (vs : Lis
         simp at h; subst h
         simp [evalList_length fuel ρ es vs' hvs]
 
-theorem Agree.bind {h Φ fv upv S rest ρ stk x v} (ha : Agree h Φ fv upv (S :: rest) ρ stk)
+theorem Agree.bind {K h Φ fv upv S rest ρ stk x v} (ha : Agree K h Φ fv upv (S :: rest) ρ stk)
     (hx : lookupScope Φ x = none) :
-    Agree h Φ fv upv (((x, stk.length) :: S) :: rest) ((x, v) :: ρ) (stk ++ [v]) := by
+    Agree K h Φ fv upv (((x, stk.length) :: S) :: rest) ((x, v) :: ρ) (stk ++ [v]) := by
   intro y w hy
   simp only [lookup] at hy
   by_cases hyx : y = x
@@ -554,11 +556,11 @@ def ArgsSpec (seIdx : Nat) (Φ : List (Sym × Nat)) (es : List Expr) : Prop :=
       (compileArgs seIdx es b st).2.scopes = st.scopes ∧
       (compileArgs seIdx es b st).2.stackSize = st.stackSize + es.length ∧
       Ext st (compileArgs seIdx es b st).2 ∧
-      ∀ (fn : Fn) (upv : List Val) (fv : List Sym) (h : Heap) (fuel : Nat) (ρ : Env)
-        (stk : List Val),
+      ∀ (K fuel : Nat), fuel ≤ K + 1 →
+      ∀ (fn : Fn) (upv : List Val) (fv : List Sym) (h : Heap) (ρ : Env) (stk : List Val),
         SegAt fn.instrs b (compileArgs seIdx es b st).1 →
         Tables (compileArgs seIdx es b st).2 fn fv →
-        stk.length = st.stackSize → Agree h Φ fv upv st.scopes ρ stk → lookup ρ dummySym = none →
+        stk.length = st.stackSize → Agree K h Φ fv upv st.scopes ρ stk → lookup ρ dummySym = none →
         (∀ vs, evalList fuel ρ es = .ok vs →
             Exec fn upv h b stk (b + (compileArgs seIdx es b st).1.length) (stk ++ vs)) ∧
         (evalList fuel ρ es = .error .arith → ExecErr fn upv h b stk .arith)
@@ -566,7 +568,7 @@ def ArgsSpec (seIdx : Nat) (Φ : List (Sym × Nat)) (es : List Expr) : Prop :=
 theorem args_nil (seIdx : Nat) (Φ : List (Sym × Nat)) : ArgsSpec seIdx Φ [] := by
   intro b st
   refine ⟨by simp [compileArgs], by simp [compileArgs], by simpa [compileArgs] using Ext.refl st, ?_⟩
-  intro fn upv fv h fuel ρ stk _ _ _ _ _
+  intro K fuel _ fn upv fv h ρ stk _ _ _ _ _
   refine ⟨fun vs hv => ?_, fun he => ?_⟩
   · cases fuel <;> simp [evalList] at hv
     subst hv; simpa [compileArgs] using Exec.refl (fn := fn) (upv := upv) (h := h) b stk
@@ -579,11 +581,11 @@ theorem args_cons {seIdx : Nat} {Φ : List (Sym × Nat)} {e : Expr} {es : List E
   obtain ⟨hs2, hz2, hx2, hd2⟩ := hes (b + (compileE seIdx e false b st).1.length) (compileE seIdx e false b st).2
   rw [compileArgs_cons]
   refine ⟨by simp [hs2, hs1], by simp [hz2, hz1]; omega, hx1.trans hx2, ?_⟩
-  intro fn upv fv h fuel ρ stk hseg htab hlen hag hdum
+  intro K fuel hK fn upv fv h ρ stk hseg htab hlen hag hdum
   cases fuel with
   | zero => simp [evalList]
   | succ n =>
-    obtain ⟨hok1, herr1⟩ := hd1 fn upv fv h n ρ stk hseg.left (htab.of_ext hx2) hlen hag hdum
+    obtain ⟨hok1, herr1⟩ := hd1 K n (by omega) fn upv fv h ρ stk hseg.left (htab.of_ext hx2) hlen hag hdum
     simp only [evalList]
     cases h1 : evalCore n ρ e with
     | error err =>
@@ -592,7 +594,7 @@ theorem args_cons {seIdx : Nat} {Φ : List (Sym × Nat)} {e : Expr} {es : List E
       exact herr1 h1
     | ok v =>
       have ex1 := (hok1 v h1).exec
-      obtain ⟨hok2, herr2⟩ := hd2 fn upv fv h n ρ (stk ++ [v]) hseg.right htab
+      obtain ⟨hok2, herr2⟩ := hd2 K n (by omega) fn upv fv h ρ (stk ++ [v]) hseg.right htab
         (by simp [hz1, hlen]) (by rw [hs1]; exact hag.append [v]) hdum
       cases h2 : evalList n ρ es with
       | error err =>
@@ -742,16 +744,16 @@ def splitOk (nfields : Nat) (fields : List PatField) (byType : List (Option Sym)
   (splitNames byType).all (fun x => x == dummySym || (lookupScope (symF fields) x).isSome) &&
   !(fields.map (·.binder)).contains dummySym
 
-theorem split_agree (h : Heap) (Φ : List (Sym × Nat)) (fv : List Sym) (upv : List Val)
+theorem split_agree (K : Nat) (h : Heap) (Φ : List (Sym × Nat)) (fv : List Sym) (upv : List Val)
     (scopes : List (List (Sym × Nat)))
     (nfields : Nat) (fields : List PatField) (byType : List (Option Sym))
     (hok : splitOk nfields fields byType = true)
     (hfr : ∀ f ∈ fields, lookupScope Φ f.binder = none)
     (stk fs : List Val) (ns : List String) (ρ ρ' : Env)
     (hlen : fs.length = nfields)
-    (hag : Agree h Φ fv upv scopes ρ stk) (hdum : lookup ρ dummySym = none)
+    (hag : Agree K h Φ fv upv scopes ρ stk) (hdum : lookup ρ dummySym = none)
     (hb : bindFields false fields fs ns ρ = some ρ') :
-    Agree h Φ fv upv ((varsOf stk.length (splitNames byType) ++ []) :: scopes) ρ' (stk ++ fs) ∧
+    Agree K h Φ fv upv ((varsOf stk.length (splitNames byType) ++ []) :: scopes) ρ' (stk ++ fs) ∧
     lookup ρ' dummySym = none := by
   simp only [splitOk, Bool.and_eq_true, decide_eq_true_eq, List.all_eq_true, beq_iff_eq,
     Bool.or_eq_true, Bool.not_eq_true'] at hok
@@ -1036,18 +1038,18 @@ theorem pushVars_scopes : ∀ (args : List Sym) (st : FState) (S : List (Sym × 
     rw [pushVars_cons]
     refine ⟨by rw [ih1, h2]; simp [varsOf], by rw [ih2, h2]; simp; omega⟩
 
-theorem varsOf_agree (h : Heap) (Φ : List (Sym × Nat)) (fv : List Sym) (upv : List Val) :
+theorem varsOf_agree (K : Nat) (h : Heap) (Φ : List (Sym × Nat)) (fv : List Sym) (upv : List Val) :
     ∀ (args : List Sym) (fs : List Val)
     (stk : List Val) (ρ : Env) (S : List (Sym × Nat)) (rest : List (List (Sym × Nat))),
     args.length = fs.length → (∀ a ∈ args, lookupScope Φ a = none) →
-    Agree h Φ fv upv (S :: rest) ρ stk →
-    Agree h Φ fv upv ((varsOf stk.length args ++ S) :: rest) (bindAll args fs ρ) (stk ++ fs)
+    Agree K h Φ fv upv (S :: rest) ρ stk →
+    Agree K h Φ fv upv ((varsOf stk.length args ++ S) :: rest) (bindAll args fs ρ) (stk ++ fs)
   | [], [], stk, ρ, S, rest, _, _, ha => by simpa [varsOf, bindAll] using ha
   | [], _ :: _, _, _, _, _, hl, _, _ => by simp at hl
   | _ :: _, [], _, _, _, _, hl, _, _ => by simp at hl
   | x :: xs, v :: vs, stk, ρ, S, rest, hl, hfr, ha => by
     have hb := ha.bind (x := x) (v := v) (hfr x (by simp))
-    have := varsOf_agree h Φ fv upv xs vs (stk ++ [v]) ((x, v) :: ρ) ((x, stk.length) :: S) rest
+    have := varsOf_agree K h Φ fv upv xs vs (stk ++ [v]) ((x, v) :: ρ) ((x, stk.length) :: S) rest
       (by simpa using hl) (fun a ha' => hfr a (by simp [ha'])) hb
     simpa [varsOf, bindAll] using this
 
@@ -1101,18 +1103,18 @@ theorem step_getOffset (fn : Fn) (upv : List Val) (pc i t : Nat) (s fs : List Va
   have h2 : popN (s ++ [.data t fs ns]) 1 = s := popN_append s [_] 1 rfl
   simp [stepInstr, asData, h2, hw]
 
-theorem fieldLoads_exec (fn : Fn) (upv : List Val) (fv : List Sym) (h : Heap)
+theorem fieldLoads_exec (fn : Fn) (upv : List Val) (fv : List Sym) (K : Nat) (h : Heap)
     (Φ : List (Sym × Nat)) (r t : Nat)
     (fs : List Val) (ns : List String) (rest : List (List (Sym × Nat))) :
     ∀ (fields : List PatField) (st : FState) (stk : List Val) (ρ ρ' : Env) (S : List (Sym × Nat))
       (B : Nat), (∀ f ∈ fields, lookupScope Φ f.binder = none) →
-      stk[r]? = some (.data t fs ns) → Agree h Φ fv upv (S :: rest) ρ stk →
+      stk[r]? = some (.data t fs ns) → Agree K h Φ fv upv (S :: rest) ρ stk →
       lookup ρ dummySym = none → (fields.map (·.binder)).contains dummySym = false →
       bindFields false fields fs ns ρ = some ρ' →
       SegAt fn.instrs B (fieldLoads false r fields st).1 →
       ∃ X : List Val, X.length = fields.length ∧
         Exec fn upv h B stk (B + (fieldLoads false r fields st).1.length) (stk ++ X) ∧
-        Agree h Φ fv upv ((varsOf stk.length (fields.map (·.binder)) ++ S) :: rest) ρ' (stk ++ X) ∧
+        Agree K h Φ fv upv ((varsOf stk.length (fields.map (·.binder)) ++ S) :: rest) ρ' (stk ++ X) ∧
         lookup ρ' dummySym = none
   | [], st, stk, ρ, ρ', S, B, _, _, hag, hd, _, hb, _ => by
     simp only [bindFields, Option.some.injEq] at hb
@@ -1148,7 +1150,7 @@ theorem fieldLoads_exec (fn : Fn) (upv : List Val) (fv : List Sym) (h : Heap)
       have hd' : lookup ((f.binder, w) :: ρ) dummySym = none := by
         have : ¬ dummySym = f.binder := hnd.1
         simp [lookup, this, hd]
-      obtain ⟨X, hX, ex, hag', hdum'⟩ := fieldLoads_exec fn upv fv h Φ r t fs ns rest fields
+      obtain ⟨X, hX, ex, hag', hdum'⟩ := fieldLoads_exec fn upv fv K h Φ r t fs ns rest fields
         (((st.emit (.push r)).emit (.getOffset (f.index.getD 0))).newStackVar f.binder)
         (stk ++ [w]) ((f.binder, w) :: ρ) ρ' ((f.binder, stk.length) :: S) (B + 1 + 1)
         (fun g hg => hfr g (by simp [hg])) hr'
@@ -1306,9 +1308,9 @@ theorem step_split (fn : Fn) (upv : List Val) (pc t : Nat) (s fs : List Val) (ns
   have h2 : popN (s ++ [.data t fs ns]) 1 = s := popN_append s [_] 1 rfl
   simp [stepInstr, asData, h2]
 
-theorem Agree.dummy {h Φ fv upv S rest ρ stk n} (ha : Agree h Φ fv upv (S :: rest) ρ stk)
+theorem Agree.dummy {K h Φ fv upv S rest ρ stk n} (ha : Agree K h Φ fv upv (S :: rest) ρ stk)
     (hd : lookup ρ dummySym = none) :
-    Agree h Φ fv upv (((dummySym, n) :: S) :: rest) ρ stk := by
+    Agree K h Φ fv upv (((dummySym, n) :: S) :: rest) ρ stk := by
   intro y w hy
   have hyd : ¬ y = dummySym := by
     intro e; subst e; rw [hd] at hy; cases hy
@@ -1324,14 +1326,14 @@ theorem Agree.dummy {h Φ fv upv S rest ρ stk n} (ha : Agree h Φ fv upv (S :: 
     pattern's variables, which then agree with the extended environment. -/
 theorem prologue_exec (p : Pat) (hp : patOk p = true) (Φ : List (Sym × Nat))
     (hfr : patFresh Φ p = true) (st : FState) (fn : Fn) (upv : List Val)
-    (fv : List Sym) (h : Heap) (stk : List Val) (sv : Val) (ρ ρ' : Env) (B : Nat)
+    (fv : List Sym) (K : Nat) (h : Heap) (stk : List Val) (sv : Val) (ρ ρ' : Env) (B : Nat)
     (hz : st.stackSize = stk.length + 1)
-    (hag : Agree h Φ fv upv st.scopes ρ stk) (hdum : lookup ρ dummySym = none)
+    (hag : Agree K h Φ fv upv st.scopes ρ stk) (hdum : lookup ρ dummySym = none)
     (hm : matchPat p sv ρ = some (some ρ'))
     (hseg : SegAt fn.instrs B (prologue p st.enterScope).1) :
     ∃ X : List Val, X.length = (patVars stk.length p).length ∧
       Exec fn upv h B (stk ++ [sv]) (B + (prologue p st.enterScope).1.length) (stk ++ X) ∧
-      Agree h Φ fv upv (patVars stk.length p :: st.scopes) ρ' (stk ++ X) ∧
+      Agree K h Φ fv upv (patVars stk.length p :: st.scopes) ρ' (stk ++ X) ∧
       lookup ρ' dummySym = none := by
   cases p with
   | record nfields poly fields byType =>
@@ -1345,9 +1347,9 @@ theorem prologue_exec (p : Pat) (hp : patOk p = true) (Φ : List (Sym × Nat))
         have h2 : (st.enterScope.newStackVar dummySym).stackSize - 1 = stk.length := by
           simp [FState.newStackVar, FState.enterScope, hz]
         rw [prologue_record _ _ _ _ hcond, h2] at hseg ⊢
-        have hbase : Agree h Φ fv upv ([(dummySym, stk.length)] :: st.scopes) ρ (stk ++ [.data t fs ns]) :=
+        have hbase : Agree K h Φ fv upv ([(dummySym, stk.length)] :: st.scopes) ρ (stk ++ [.data t fs ns]) :=
           ((hag.enter).dummy hdum).append _
-        obtain ⟨X, hX, ex, hag', hdum'⟩ := fieldLoads_exec fn upv fv h Φ stk.length t fs ns st.scopes
+        obtain ⟨X, hX, ex, hag', hdum'⟩ := fieldLoads_exec fn upv fv K h Φ stk.length t fs ns st.scopes
           fields (st.enterScope.newStackVar dummySym) (stk ++ [.data t fs ns]) ρ ρ'
           [(dummySym, stk.length)] B
           (fun f hf => patFresh_mem hfr f.binder (by simp [patBinders]; exact ⟨f, hf, rfl⟩))
@@ -1362,7 +1364,7 @@ theorem prologue_exec (p : Pat) (hp : patOk p = true) (Φ : List (Sym × Nat))
           simp only [splitOk, Bool.and_eq_true, decide_eq_true_eq] at hok
           exact hok.1.1.1
         rw [prologue_split _ _ _ _ hcond] at hseg ⊢
-        obtain ⟨hag', hdum'⟩ := split_agree h Φ fv upv st.scopes nfields fields byType hok
+        obtain ⟨hag', hdum'⟩ := split_agree K h Φ fv upv st.scopes nfields fields byType hok
           (fun f hf => patFresh_mem hfr f.binder (by simp [patBinders]; exact ⟨f, hf, rfl⟩))
           stk fs ns ρ ρ' hfl hag hdum hb
         refine ⟨fs, by simp [patVars, hcond, varsOf_length, splitNames, hfl, hbl], ?_, ?_, hdum'⟩
@@ -1404,7 +1406,7 @@ theorem prologue_exec (p : Pat) (hp : patOk p = true) (Φ : List (Sym × Nat))
             simp only [prologue] at hseg ⊢
             refine ⟨fs, by simp [patVars, varsOf_length, hl], ?_, ?_, bindAll_dummy args fs ρ hp hdum⟩
             · exact Exec.step hseg.head (step_split fn upv B t stk fs ns h)
-            · have := varsOf_agree h Φ fv upv args fs stk ρ [] st.scopes hl
+            · have := varsOf_agree K h Φ fv upv args fs stk ρ [] st.scopes hl
                 (fun a ha => patFresh_mem hfr a (by simpa [patBinders] using ha)) hag.enter
               simpa [patVars] using this
           · simp [hl] at hm
@@ -1440,13 +1442,13 @@ theorem compileAlts_cons (seIdx p e alts tail b st) :
 
 /-- every alternative's code, entered with the scrutinee on top of `stk`, ends at `endPc` with
     the alternative's value in place of the scrutinee -/
-def AltsDyn (fn : Fn) (upv : List Val) (h : Heap) (tail : Bool) (ρ : Env) (stk : List Val)
-    (sv : Val) (endPc : Nat) : List (Pat × Expr) → List (List Instr) → Nat → Prop
+def AltsDyn (K : Nat) (fn : Fn) (upv : List Val) (h : Heap) (tail : Bool) (ρ : Env)
+    (stk : List Val) (sv : Val) (endPc : Nat) : List (Pat × Expr) → List (List Instr) → Nat → Prop
   | (p, e) :: alts, c :: cs, B =>
-    (∀ (fuel : Nat) (ρ' : Env), matchPat p sv ρ = some (some ρ') →
+    (∀ (fuel : Nat) (ρ' : Env), fuel ≤ K + 1 → matchPat p sv ρ = some (some ρ') →
         (∀ v, evalCore fuel ρ' e = .ok v → Done fn upv h tail B (stk ++ [sv]) endPc stk v) ∧
         (evalCore fuel ρ' e = .error .arith → ExecErr fn upv h B (stk ++ [sv]) .arith)) ∧
-      AltsDyn fn upv h tail ρ stk sv endPc alts cs (B + c.length + 1)
+      AltsDyn K fn upv h tail ρ stk sv endPc alts cs (B + c.length + 1)
   | _, _, _ => True
 
 def AltsSpec (seIdx : Nat) (Φ : List (Sym × Nat)) (alts : List (Pat × Expr)) : Prop :=
@@ -1455,12 +1457,12 @@ def AltsSpec (seIdx : Nat) (Φ : List (Sym × Nat)) (alts : List (Pat × Expr)) 
     (compileAlts seIdx alts tail b st).2.stackSize = n + 1 ∧
     (compileAlts seIdx alts tail b st).1.length = alts.length ∧
     Ext st (compileAlts seIdx alts tail b st).2 ∧
-    ∀ (fn : Fn) (upv : List Val) (fv : List Sym) (h : Heap) (ρ : Env) (stk : List Val) (sv : Val)
-      (endPc : Nat),
-      stk.length = n → Agree h Φ fv upv st.scopes ρ stk → lookup ρ dummySym = none →
+    ∀ (K : Nat) (fn : Fn) (upv : List Val) (fv : List Sym) (h : Heap) (ρ : Env) (stk : List Val)
+      (sv : Val) (endPc : Nat),
+      stk.length = n → Agree K h Φ fv upv st.scopes ρ stk → lookup ρ dummySym = none →
       Tables (compileAlts seIdx alts tail b st).2 fn fv →
       SegAt fn.instrs b (joinBodies endPc (compileAlts seIdx alts tail b st).1) →
-      AltsDyn fn upv h tail ρ stk sv endPc alts (compileAlts seIdx alts tail b st).1 b
+      AltsDyn K fn upv h tail ρ stk sv endPc alts (compileAlts seIdx alts tail b st).1 b
 
 theorem alts_nil (seIdx : Nat) (Φ : List (Sym × Nat)) : AltsSpec seIdx Φ [] := by
   intro tail b st n hz
@@ -1502,15 +1504,15 @@ theorem alts_cons {seIdx : Nat} {Φ : List (Sym × Nat)} {p : Pat} {e : Expr}
     (b + ((prologue p st.enterScope).1 ++ R2.1 ++ R3.1).length + 1) R3.2 n hf2z
   refine ⟨by rw [ha1, hf2s], ha2, by simp only [List.length_cons, ha3],
     ((hpsame.ext.trans hx2).trans hf2t.ext).trans hax, ?_⟩
-  intro fn upv fv h ρ stk sv endPc hlen hag hdum htab hseg
+  intro K fn upv fv h ρ stk sv endPc hlen hag hdum htab hseg
   simp only [joinBodies] at hseg
   refine ⟨?_, ?_⟩
-  · intro fuel ρ' hm
+  · intro fuel ρ' hK hm
     have hsegc := hseg.left.left
-    obtain ⟨X, hX, ex1, hag', hdum'⟩ := prologue_exec p hp Φ hfr st fn upv fv h stk sv ρ ρ' b
+    obtain ⟨X, hX, ex1, hag', hdum'⟩ := prologue_exec p hp Φ hfr st fn upv fv K h stk sv ρ ρ' b
       (by rw [hz, hlen]) hag hdum hm hsegc.left.left
     rw [hlen] at hX hag'
-    obtain ⟨hok, herr⟩ := hd2 fn upv fv h fuel ρ' (stk ++ X) hsegc.left.right
+    obtain ⟨hok, herr⟩ := hd2 K fuel (by omega) fn upv fv h ρ' (stk ++ X) hsegc.left.right
       (htab.of_ext (hf2t.ext.trans hax))
       (by simp [hpz, hX, hlen]) (by rw [hps]; exact hag') hdum'
     refine ⟨fun v hv => ?_, fun hv => ex1.thenErr (herr hv)⟩
@@ -1530,7 +1532,7 @@ theorem alts_cons {seIdx : Nat} {Φ : List (Sym × Nat)} {p : Pat} {e : Expr}
       have ex4 := Exec.step (stk := stk ++ [v]) (upv := upv) (h := h) hjmp (step_jump fn upv _ _ _ h)
       exact (((ex2.to (by simp only [List.length_append]; omega) rfl).andThen ex3).to
         (by simp only [List.length_append, List.length_cons, List.length_nil]; omega) rfl).andThen ex4
-  · have := had fn upv fv h ρ stk sv endPc hlen (by rw [hf2s]; exact hag) hdum htab
+  · have := had K fn upv fv h ρ stk sv endPc hlen (by rw [hf2s]; exact hag) hdum htab
       (hseg.right.to (by simp only [List.length_append, List.length_cons, List.length_nil]; omega))
     exact this
 
@@ -1571,19 +1573,19 @@ theorem endOf_eq (e : Nat) : ∀ (cs : List (List Instr)) (B : Nat),
       List.length_nil]
     omega
 
-theorem dispatch (seIdx : Nat) (fn : Fn) (upv : List Val) (h : Heap) (tail : Bool) (ρ : Env)
-    (stk : List Val) (sv : Val) (endPc : Nat) :
+theorem dispatch (seIdx : Nat) (K : Nat) (fn : Fn) (upv : List Val) (h : Heap) (tail : Bool)
+    (ρ : Env) (stk : List Val) (sv : Val) (endPc : Nat) :
     ∀ (alts : List (Pat × Expr)) (cs : List (List Instr)) (T B fuel : Nat) (st : FState),
-      (∀ a ∈ alts, patOk a.1 = true) → (∀ a ∈ alts, isRec a.1 = false) →
+      fuel ≤ K + 1 → (∀ a ∈ alts, patOk a.1 = true) → (∀ a ∈ alts, isRec a.1 = false) →
       st.stackSize = stk.length + 1 → cs.length = alts.length →
       SegAt fn.instrs T (patchTests (testsOf seIdx alts st).1 (startsOf B cs)) →
-      AltsDyn fn upv h tail ρ stk sv endPc alts cs B →
+      AltsDyn K fn upv h tail ρ stk sv endPc alts cs B →
       (∀ v, evalAlts fuel ρ sv alts = .ok v → Done fn upv h tail T (stk ++ [sv]) endPc stk v) ∧
       (evalAlts fuel ρ sv alts = .error .arith → ExecErr fn upv h T (stk ++ [sv]) .arith)
-  | [], cs, T, B, fuel, st, _, _, _, _, _, _ => by
+  | [], cs, T, B, fuel, st, _, _, _, _, _, _, _ => by
     cases fuel <;> simp [evalAlts]
-  | (p, e) :: alts, [], _, _, _, _, _, _, _, hl, _, _ => by simp at hl
-  | (p, e) :: alts, c :: cs, T, B, fuel, st, hok, hnr, hz, hl, hseg, hdyn => by
+  | (p, e) :: alts, [], _, _, _, _, _, _, _, _, hl, _, _ => by simp at hl
+  | (p, e) :: alts, c :: cs, T, B, fuel, st, hK, hok, hnr, hz, hl, hseg, hdyn => by
     have hp := hok (p, e) (by simp)
     rw [testsOf_cons _ _ _ _ _ hp] at hseg
     simp only [startsOf, patchTests] at hseg
@@ -1599,11 +1601,11 @@ theorem dispatch (seIdx : Nat) (fn : Fn) (upv : List Val) (h : Heap) (tail : Boo
       | some o =>
         cases o with
         | some ρ' =>
-          obtain ⟨h1, h2⟩ := hhead n ρ' hm
+          obtain ⟨h1, h2⟩ := hhead n ρ' (by omega) hm
           exact ⟨fun v hv => (h1 v hv).prepend (hsel ρ' hm), fun hv => (hsel ρ' hm).thenErr (h2 hv)⟩
         | none =>
-          have ih := dispatch seIdx fn upv h tail ρ stk sv endPc alts cs
-            (T + (testCode seIdx p st).1.length) (B + c.length + 1) n st
+          have ih := dispatch seIdx K fn upv h tail ρ stk sv endPc alts cs
+            (T + (testCode seIdx p st).1.length) (B + c.length + 1) n st (by omega)
             (fun a ha => hok a (by simp [ha])) (fun a ha => hnr a (by simp [ha])) hz
             (by simpa using hl)
             (hseg.right.to (by rw [patchLast_length])) htail
@@ -1646,7 +1648,7 @@ theorem match_spec {seIdx : Nat} {Φ : List (Sym × Nat)} {s : Expr} {alts : Lis
   obtain ⟨ha1, ha2, ha3, hax, had⟩ := ha tail (b + R0.1.length + testsLen TS) R0.2 st.stackSize hz0
   generalize hRA : compileAlts seIdx alts tail (b + R0.1.length + testsLen TS) R0.2 = RA at *
   refine ⟨[], by simp [ha1, hs0, hsc], by simp [ha2], hx0.trans hax, ?_⟩
-  intro fn upv fv h fuel ρ stk hseg htab hlen hag hdum
+  intro K fuel hK fn upv fv h ρ stk hseg htab hlen hag hdum
   have hptl : (patchTests TS (startsOf (b + R0.1.length + testsLen TS) RA.1)).length = testsLen TS :=
     patchTests_length _ _ (by rw [startsOf_length, htl, ha3])
   have hend := endOf_eq (endOf (b + R0.1.length + testsLen TS) RA.1) RA.1
@@ -1654,7 +1656,7 @@ theorem match_spec {seIdx : Nat} {Φ : List (Sym × Nat)} {s : Expr} {alts : Lis
   cases fuel with
   | zero => simp [evalCore]
   | succ n =>
-    obtain ⟨hok0, herr0⟩ := hd0 fn upv fv h n ρ stk hseg.left.left (htab.of_ext hax) hlen hag hdum
+    obtain ⟨hok0, herr0⟩ := hd0 K n (by omega) fn upv fv h ρ stk hseg.left.left (htab.of_ext hax) hlen hag hdum
     simp only [evalCore]
     cases he0 : evalCore n ρ s with
     | error err =>
@@ -1663,11 +1665,11 @@ theorem match_spec {seIdx : Nat} {Φ : List (Sym × Nat)} {s : Expr} {alts : Lis
       exact herr0 he0
     | ok sv =>
       have ex0 := (hok0 sv he0).exec
-      have hdyn := had fn upv fv h ρ stk sv (endOf (b + R0.1.length + testsLen TS) RA.1) hlen
+      have hdyn := had K fn upv fv h ρ stk sv (endOf (b + R0.1.length + testsLen TS) RA.1) hlen
         (by rw [hs0]; exact hag) hdum htab
         (hseg.right.to (by simp only [List.length_append, hptl]; omega))
-      have hd := dispatch seIdx fn upv h tail ρ stk sv (endOf (b + R0.1.length + testsLen TS) RA.1)
-        alts RA.1 (b + R0.1.length) (b + R0.1.length + testsLen TS) n R0.2 hpat hnr
+      have hd := dispatch seIdx K fn upv h tail ρ stk sv (endOf (b + R0.1.length + testsLen TS) RA.1)
+        alts RA.1 (b + R0.1.length) (b + R0.1.length + testsLen TS) n R0.2 (by omega) hpat hnr
         (by rw [hz0, hlen]) ha3 (by rw [hTS]; exact hseg.left.right) hdyn
       refine ⟨fun v hv => ⟨[], rfl, ?_⟩, fun hv => ex0.thenErr (hd.2 hv)⟩
       exact ((hd.1 v hv).prepend ex0).to
@@ -1697,11 +1699,11 @@ theorem match_spec_record {seIdx : Nat} {Φ : List (Sym × Nat)} {s : Expr} {p :
   | (c :: [], stA), _ =>
     simp only [startsOf, patchTests, patchLast, List.getLast?_nil, List.append_nil]
     refine ⟨[], by simpa [hs0, hsc] using ha1, by simpa using ha2, hx0.trans hax, ?_⟩
-    intro fn upv fv h fuel ρ stk hseg htab hlen hag hdum
+    intro K fuel hK fn upv fv h ρ stk hseg htab hlen hag hdum
     cases fuel with
     | zero => simp [evalCore]
     | succ n =>
-      obtain ⟨hok0, herr0⟩ := hd0 fn upv fv h n ρ stk hseg.left (htab.of_ext hax) hlen hag hdum
+      obtain ⟨hok0, herr0⟩ := hd0 K n (by omega) fn upv fv h ρ stk hseg.left (htab.of_ext hax) hlen hag hdum
       simp only [evalCore]
       cases he0 : evalCore n ρ s with
       | error err =>
@@ -1710,7 +1712,7 @@ theorem match_spec_record {seIdx : Nat} {Φ : List (Sym × Nat)} {s : Expr} {p :
         exact herr0 he0
       | ok sv =>
         have ex0 := (hok0 sv he0).exec
-        have hdyn := had fn upv fv h ρ stk sv (endOf (b + R0.1.length) [c]) hlen
+        have hdyn := had K fn upv fv h ρ stk sv (endOf (b + R0.1.length) [c]) hlen
           (by rw [hs0]; exact hag) hdum htab hseg.right
         obtain ⟨hhead, _⟩ := hdyn
         have hend : b + (R0.1 ++ joinBodies (endOf (b + R0.1.length) [c]) [c]).length =
@@ -1726,7 +1728,7 @@ theorem match_spec_record {seIdx : Nat} {Φ : List (Sym × Nat)} {s : Expr} {p :
           | some o =>
             cases o with
             | some ρ' =>
-              obtain ⟨h1, h2⟩ := hhead k ρ' hm
+              obtain ⟨h1, h2⟩ := hhead k ρ' (by omega) hm
               refine ⟨fun v hv => ⟨[], rfl, ?_⟩, fun hv => ex0.thenErr (h2 hv)⟩
               exact ((h1 v hv).prepend ex0).to hend.symm (by simp)
             | none =>
@@ -1900,18 +1902,19 @@ theorem ident_spec (seIdx : Nat) (Φ : List (Sym × Nat)) (x : Sym) (tail : Bool
     (compileBody seIdx (.ident x) tail b st).2.stackSize = st.stackSize + 1 ∧
     Ext st (compileBody seIdx (.ident x) tail b st).2 ∧
     (compileBody seIdx (.ident x) tail b st).1.length = 1 ∧
-    ∀ (fn : Fn) (upv : List Val) (fv : List Sym) (h : Heap) (ρ : Env) (stk : List Val) (v : Val),
+    ∀ (fn : Fn) (upv : List Val) (fv : List Sym) (K : Nat) (h : Heap) (ρ : Env) (stk : List Val)
+      (v : Val),
       SegAt fn.instrs b (compileBody seIdx (.ident x) tail b st).1 →
       Tables (compileBody seIdx (.ident x) tail b st).2 fn fv →
-      Agree h Φ fv upv st.scopes ρ stk → lookup ρ x = some v →
-      ∃ v', RV h Φ x v v' ∧ Exec fn upv h b stk (b + 1) (stk ++ [v']) := by
+      Agree K h Φ fv upv st.scopes ρ stk → lookup ρ x = some v →
+      ∃ v', RV K h Φ x v v' ∧ Exec fn upv h b stk (b + 1) (stk ++ [v']) := by
   cases hl : lookupScopes st.scopes x with
   | some i =>
     refine ⟨by simpa [compileBody, loadIdent, hl, FState.emit] using hsc,
       by simp [compileBody, loadIdent, hl, FState.emit, adjustSize, Instr.adjust],
       by simpa [compileBody, loadIdent, hl] using (same_emit st _).ext,
       by simp [compileBody, loadIdent, hl], ?_⟩
-    intro fn upv fv h ρ stk v hseg htab hag hlk
+    intro fn upv fv K h ρ stk v hseg htab hag hlk
     rcases hag x v hlk with ⟨j, v', hj, hv, hr⟩ | ⟨hn, _⟩
     · rw [hl] at hj; cases hj
       simp [compileBody, loadIdent, hl] at hseg
@@ -1923,7 +1926,7 @@ theorem ident_spec (seIdx : Nat) (Φ : List (Sym × Nat)) (x : Sym) (tail : Bool
       by simp [compileBody, loadIdent, hl, FState.emit, adjustSize, Instr.adjust, hz'],
       by simpa [compileBody, loadIdent, hl] using hext.trans (same_emit _ _).ext,
       by simp [compileBody, loadIdent, hl], ?_⟩
-    intro fn upv fv h ρ stk v hseg htab hag hlk
+    intro fn upv fv K h ρ stk v hseg htab hag hlk
     rcases hag x v hlk with ⟨j, v', hj, _, _⟩ | ⟨_, hu⟩
     · rw [hl] at hj; cases hj
     · simp only [compileBody, loadIdent, hl] at hseg htab
@@ -1938,11 +1941,12 @@ theorem head_spec (seIdx : Nat) (Φ : List (Sym × Nat)) (x : Sym) (b : Nat) (st
     (compileE seIdx (.ident x) false b st).2.stackSize = st.stackSize + 1 ∧
     Ext st (compileE seIdx (.ident x) false b st).2 ∧
     (compileE seIdx (.ident x) false b st).1.length = 1 ∧
-    ∀ (fn : Fn) (upv : List Val) (fv : List Sym) (h : Heap) (ρ : Env) (stk : List Val) (v : Val),
+    ∀ (fn : Fn) (upv : List Val) (fv : List Sym) (K : Nat) (h : Heap) (ρ : Env) (stk : List Val)
+      (v : Val),
       SegAt fn.instrs b (compileE seIdx (.ident x) false b st).1 →
       Tables (compileE seIdx (.ident x) false b st).2 fn fv →
-      Agree h Φ fv upv st.scopes ρ stk → lookup ρ x = some v →
-      ∃ v', RV h Φ x v v' ∧ Exec fn upv h b stk (b + 1) (stk ++ [v']) := by
+      Agree K h Φ fv upv st.scopes ρ stk → lookup ρ x = some v →
+      ∃ v', RV K h Φ x v v' ∧ Exec fn upv h b stk (b + 1) (stk ++ [v']) := by
   obtain ⟨h1, h2, h3, h4, h5⟩ := ident_spec seIdx Φ x false b st.enterScope [] st.scopes rfl
   have hex : (compileBody seIdx (.ident x) false b st.enterScope).2.exitScope =
       (0, { (compileBody seIdx (.ident x) false b st.enterScope).2 with scopes := st.scopes }) := by
@@ -1956,10 +1960,10 @@ theorem head_spec (seIdx : Nat) (Φ : List (Sym × Nat)) (x : Sym) (b : Nat) (st
   refine ⟨by rw [hst], by rw [hst]; simpa [FState.enterScope] using h2,
     by rw [hst]; exact ((same_enter st).ext.trans h3).trans ⟨List.prefix_refl _, List.prefix_refl _, List.prefix_refl _⟩,
     by rw [hcode]; exact h4, ?_⟩
-  intro fn upv fv h ρ stk v hseg htab hag hlk
+  intro fn upv fv K h ρ stk v hseg htab hag hlk
   rw [hcode] at hseg
   rw [hst] at htab
-  exact h5 fn upv fv h ρ stk v hseg htab (by simpa [FState.enterScope] using hag.enter) hlk
+  exact h5 fn upv fv K h ρ stk v hseg htab (by simpa [FState.enterScope] using hag.enter) hlk
 
 theorem compileBody_call (seIdx f args tail b st) (hh : headOf f args.length = .none) :
     compileBody seIdx (.call f args) tail b st =
@@ -1970,7 +1974,14 @@ theorem compileBody_call (seIdx f args tail b st) (hh : headOf f args.length = .
        (compileArgs seIdx args (b + (compileE seIdx f false b st).1.length)
           (compileE seIdx f false b st).2).2.emit
         (if tail then Instr.tailCall args.length else Instr.call args.length)) := by
-  simp [compileBody, compileE, hh]
+  by_cases h2 : ∃ l r, args = [l, r]
+  · obtain ⟨l, r, rfl⟩ := h2
+    have hh' : headOf f 2 = .none := by simpa using hh
+    cases tail <;> simp [compileBody, compileE, hh']
+  · rw [compileBody]
+    · simp only [hh, compileE]
+    · intro l r e
+      exact h2 ⟨l, r, e⟩
 
 theorem adjustSize_call (i : Instr) (n m : Nat) (hi : i.adjust = -(n : Int)) :
     adjustSize i (m + 1 + n) = m + 1 := by
@@ -1980,7 +1991,8 @@ theorem adjustSize_call (i : Instr) (n m : Nat) (hi : i.adjust = -(n : Int)) :
 
 mutual
 /-- The compiler-correctness invariant for every expression of the fragment. -/
-theorem body_spec (seIdx : Nat) : ∀ (e : Expr), inF e = true → BodySpec seIdx e
+theorem body_spec (seIdx : Nat) (Φ : List (Sym × Nat)) : ∀ (e : Expr), inF Φ e = true →
+    BodySpec seIdx Φ e
   | .const l, _ => by
     intro tail b st S rest hsc
     cases l with
@@ -1989,7 +2001,7 @@ theorem body_spec (seIdx : Nat) : ∀ (e : Expr), inF e = true → BodySpec seId
       refine ⟨[], by simp [compileBody, compileLit, FState.emit, hsc', hsc],
         by simp [compileBody, compileLit, FState.emit, adjustSize, Instr.adjust, hz'],
         by simpa [compileBody, compileLit] using hext.trans (same_emit _ _).ext, ?_⟩
-      intro fn upv fv h fuel ρ stk hseg htab hlen hag hdum
+      intro K fuel hK fn upv fv h ρ stk hseg htab hlen hag hdum
       refine ⟨fun v hv => ⟨[], rfl, ?_⟩, fun he => ?_⟩
       · cases fuel with
         | zero => simp [evalCore] at hv
@@ -1998,131 +2010,101 @@ theorem body_spec (seIdx : Nat) : ∀ (e : Expr), inF e = true → BodySpec seId
           simp only [compileBody, compileLit] at hseg htab ⊢
           have hs : fn.strings[(st.addString x).1]? = some x :=
             prefix_getElem? (htab.of_ext (same_emit _ _).ext).2.1 hget
-          simpa using Exec.step hseg.head (by simp [stepInstr, hs] :
-            stepInstr fn upv (.pushString (st.addString x).1) b stk h = .next (b + 1) (stk ++ [.str x]) h)
+          exact Done.of_exec (by simpa using Exec.step hseg.head (by simp [stepInstr, hs] :
+            stepInstr fn upv (.pushString (st.addString x).1) b stk h = .next (b + 1) (stk ++ [.str x]) h))
       · cases fuel <;> simp [evalCore] at he
     | int n =>
       refine ⟨[], by simp [compileBody, compileLit, FState.emit, hsc],
         by simp [compileBody, compileLit, FState.emit, adjustSize, Instr.adjust],
         by simpa [compileBody, compileLit] using (same_emit st _).ext, ?_⟩
-      intro fn upv fv h fuel ρ stk hseg htab hlen hag hdum
+      intro K fuel hK fn upv fv h ρ stk hseg htab hlen hag hdum
       refine ⟨fun v hv => ⟨[], rfl, ?_⟩, fun he => ?_⟩
       · cases fuel with
         | zero => simp [evalCore] at hv
         | succ k =>
           simp [evalCore, litVal] at hv; subst hv
           simp only [compileBody, compileLit] at hseg ⊢
-          simpa using Exec.step (upv := upv) (h := h) (stk := stk) hseg.head rfl
+          exact Done.of_exec (by simpa using Exec.step (upv := upv) (h := h) (stk := stk) hseg.head rfl)
       · cases fuel <;> simp [evalCore] at he
     | byte n =>
       refine ⟨[], by simp [compileBody, compileLit, FState.emit, hsc],
         by simp [compileBody, compileLit, FState.emit, adjustSize, Instr.adjust],
         by simpa [compileBody, compileLit] using (same_emit st _).ext, ?_⟩
-      intro fn upv fv h fuel ρ stk hseg htab hlen hag hdum
+      intro K fuel hK fn upv fv h ρ stk hseg htab hlen hag hdum
       refine ⟨fun v hv => ⟨[], rfl, ?_⟩, fun he => ?_⟩
       · cases fuel with
         | zero => simp [evalCore] at hv
         | succ k =>
           simp [evalCore, litVal] at hv; subst hv
           simp only [compileBody, compileLit] at hseg ⊢
-          simpa using Exec.step (upv := upv) (h := h) (stk := stk) hseg.head rfl
+          exact Done.of_exec (by simpa using Exec.step (upv := upv) (h := h) (stk := stk) hseg.head rfl)
       · cases fuel <;> simp [evalCore] at he
     | float n =>
       refine ⟨[], by simp [compileBody, compileLit, FState.emit, hsc],
         by simp [compileBody, compileLit, FState.emit, adjustSize, Instr.adjust],
         by simpa [compileBody, compileLit] using (same_emit st _).ext, ?_⟩
-      intro fn upv fv h fuel ρ stk hseg htab hlen hag hdum
+      intro K fuel hK fn upv fv h ρ stk hseg htab hlen hag hdum
       refine ⟨fun v hv => ⟨[], rfl, ?_⟩, fun he => ?_⟩
       · cases fuel with
         | zero => simp [evalCore] at hv
         | succ k =>
           simp [evalCore, litVal] at hv; subst hv
           simp only [compileBody, compileLit] at hseg ⊢
-          simpa using Exec.step (upv := upv) (h := h) (stk := stk) hseg.head rfl
+          exact Done.of_exec (by simpa using Exec.step (upv := upv) (h := h) (stk := stk) hseg.head rfl)
       · cases fuel <;> simp [evalCore] at he
     | char n =>
       refine ⟨[], by simp [compileBody, compileLit, FState.emit, hsc],
         by simp [compileBody, compileLit, FState.emit, adjustSize, Instr.adjust],
         by simpa [compileBody, compileLit] using (same_emit st _).ext, ?_⟩
-      intro fn upv fv h fuel ρ stk hseg htab hlen hag hdum
+      intro K fuel hK fn upv fv h ρ stk hseg htab hlen hag hdum
       refine ⟨fun v hv => ⟨[], rfl, ?_⟩, fun he => ?_⟩
       · cases fuel with
         | zero => simp [evalCore] at hv
         | succ k =>
           simp [evalCore, litVal] at hv; subst hv
           simp only [compileBody, compileLit] at hseg ⊢
-          simpa using Exec.step (upv := upv) (h := h) (stk := stk) hseg.head rfl
+          exact Done.of_exec (by simpa using Exec.step (upv := upv) (h := h) (stk := stk) hseg.head rfl)
       · cases fuel <;> simp [evalCore] at he
-  | .ident x, _ => by
+  | .ident x, hF => by
     intro tail b st S rest hsc
-    cases hl : lookupScopes st.scopes x with
-    | some i =>
-      refine ⟨[], by simpa [compileBody, loadIdent, hl, FState.emit] using hsc,
-        by simp [compileBody, loadIdent, hl, FState.emit, adjustSize, Instr.adjust],
-        by simpa [compileBody, loadIdent, hl] using (same_emit st _).ext, ?_⟩
-      intro fn upv fv h fuel ρ stk hseg htab hlen hag hdum
-      refine ⟨fun v hv => ⟨[], rfl, ?_⟩, fun he => ?_⟩
-      · cases fuel with
-        | zero => simp [evalCore] at hv
-        | succ n =>
-          simp only [evalCore] at hv
-          cases hlk : lookup ρ x with
-          | none => simp [hlk] at hv
-          | some w =>
-            simp [hlk] at hv; subst hv
-            rcases hag x w hlk with ⟨j, hj, hv⟩ | ⟨hn, _⟩
-            · rw [hl] at hj; cases hj
-              simp [compileBody, loadIdent, hl] at hseg ⊢
-              exact Exec.step hseg.head (by simp [stepInstr, hv])
-            · rw [hl] at hn; cases hn
-      · cases fuel with
-        | zero => simp [evalCore] at he
-        | succ n =>
-          simp only [evalCore] at he
-          cases hlk : lookup ρ x <;> simp [hlk] at he
-    | none =>
-      obtain ⟨hidx, hext, hsc', hz'⟩ := upvar_spec st x
-      refine ⟨[], by simp only [compileBody, loadIdent, hl, FState.emit, hsc', List.nil_append]; exact hsc,
-        by simp [compileBody, loadIdent, hl, FState.emit, adjustSize, Instr.adjust, hz'],
-        by simpa [compileBody, loadIdent, hl] using hext.trans (same_emit _ _).ext, ?_⟩
-      intro fn upv fv h fuel ρ stk hseg htab hlen hag hdum
-      refine ⟨fun v hv => ⟨[], rfl, ?_⟩, fun he => ?_⟩
-      · cases fuel with
-        | zero => simp [evalCore] at hv
-        | succ n =>
-          simp only [evalCore] at hv
-          cases hlk : lookup ρ x with
-          | none => simp [hlk] at hv
-          | some w =>
-            simp [hlk] at hv; subst hv
-            rcases hag x w hlk with ⟨j, hj, _⟩ | ⟨_, k, hk, hu⟩
-            · rw [hl] at hj; cases hj
-            · simp only [compileBody, loadIdent, hl] at hseg htab ⊢
-              have hk' := indexOfSym_prefix _ _ x _ (htab.of_ext (same_emit _ _).ext).1 hidx
-              rw [hk] at hk'; cases hk'
-              simpa using Exec.step hseg.head (by simp [stepInstr, hu] :
-                stepInstr fn upv (.pushUpVar (st.upvar x).1) b stk h = .next (b + 1) (stk ++ [w]) h)
-      · cases fuel with
-        | zero => simp [evalCore] at he
-        | succ n =>
-          simp only [evalCore] at he
-          cases hlk : lookup ρ x <;> simp [hlk] at he
+    have hfx : lookupScope Φ x = none := by simpa [inF] using hF
+    obtain ⟨h1, h2, h3, h4, h5⟩ := ident_spec seIdx Φ x tail b st S rest hsc
+    refine ⟨[], by simpa using h1, by simpa using h2, h3, ?_⟩
+    intro K fuel hK fn upv fv h ρ stk hseg htab hlen hag hdum
+    refine ⟨fun v hv => ⟨[], rfl, ?_⟩, fun he => ?_⟩
+    · cases fuel with
+      | zero => simp [evalCore] at hv
+      | succ n =>
+        simp only [evalCore] at hv
+        cases hlk : lookup ρ x with
+        | none => simp [hlk] at hv
+        | some w =>
+          simp [hlk] at hv; subst hv
+          obtain ⟨v', hr, ex⟩ := h5 fn upv fv K h ρ stk w hseg htab hag hlk
+          simp only [RV, hfx] at hr
+          subst hr
+          exact Done.of_exec (by rw [h4]; simpa using ex)
+    · cases fuel with
+      | zero => simp [evalCore] at he
+      | succ n =>
+        simp only [evalCore] at he
+        cases hlk : lookup ρ x <;> simp [hlk] at he
   | .cast e, hF => by
-    have ih := body_spec seIdx e (by simpa [inF] using hF)
+    have ih := body_spec seIdx Φ e (by simpa [inF] using hF)
     intro tail b st S rest hsc
     obtain ⟨N, h1, h2, hx, h3⟩ := ih tail b st S rest hsc
     refine ⟨N, by simpa [compileBody_cast] using h1, by simpa [compileBody_cast] using h2,
       by simpa [compileBody_cast] using hx, ?_⟩
-    intro fn upv fv h fuel ρ stk hseg htab hlen hag hdum
+    intro K fuel hK fn upv fv h ρ stk hseg htab hlen hag hdum
     rw [compileBody_cast] at hseg htab ⊢
     cases fuel with
     | zero => simp [evalCore]
-    | succ n => simpa [evalCore] using h3 fn upv fv h n ρ stk hseg htab hlen hag hdum
+    | succ n => simpa [evalCore] using h3 K n (by omega) fn upv fv h ρ stk hseg htab hlen hag hdum
   | .letE x e₁ body, hF => by
-    simp only [inF, Bool.and_eq_true, decide_eq_true_eq] at hF
-    obtain ⟨⟨hx, h1F⟩, h2F⟩ := hF
-    have w1 := wrap_of_body (body_spec seIdx e₁ h1F)
-    have ih2 := body_spec seIdx body h2F
+    simp only [inF, Bool.and_eq_true, decide_eq_true_eq, Option.isNone_iff_eq_none] at hF
+    obtain ⟨⟨⟨hx, hfx⟩, h1F⟩, h2F⟩ := hF
+    have w1 := wrap_of_body (body_spec seIdx Φ e₁ h1F)
+    have ih2 := body_spec seIdx Φ body h2F
     intro tail b st S rest hsc
     obtain ⟨hs1, hz1, hx1, hd1⟩ := w1 false b st
     have hsc' : ((compileE seIdx e₁ false b st).2.newStackVar x).scopes =
@@ -2136,11 +2118,11 @@ theorem body_spec (seIdx : Nat) : ∀ (e : Expr), inF e = true → BodySpec seId
     rw [compileBody_letE]
     refine ⟨N' ++ [(x, st.stackSize)], by simpa using h1, by simp [h2, hz']; omega,
       hx1.trans hx12, ?_⟩
-    intro fn upv fv h fuel ρ stk hseg htab hlen hag hdum
+    intro K fuel hK fn upv fv h ρ stk hseg htab hlen hag hdum
     cases fuel with
     | zero => simp [evalCore]
     | succ n =>
-      obtain ⟨hok1, herr1⟩ := hd1 fn upv fv h n ρ stk hseg.left (htab.of_ext hx12) hlen hag hdum
+      obtain ⟨hok1, herr1⟩ := hd1 K n (by omega) fn upv fv h ρ stk hseg.left (htab.of_ext hx12) hlen hag hdum
       simp only [evalCore]
       cases he1 : evalCore n ρ e₁ with
       | error err =>
@@ -2148,23 +2130,22 @@ theorem body_spec (seIdx : Nat) : ∀ (e : Expr), inF e = true → BodySpec seId
         simp at he; subst he
         exact herr1 he1
       | ok v₁ =>
-        have ex1 := hok1 v₁ he1
-        have hag' : Agree h Φ fv upv ((compileE seIdx e₁ false b st).2.newStackVar x).scopes
+        have ex1 := (hok1 v₁ he1).exec
+        have hag' : Agree K h Φ fv upv ((compileE seIdx e₁ false b st).2.newStackVar x).scopes
             ((x, v₁) :: ρ) (stk ++ [v₁]) := by
           rw [hsc', ← hlen]
           rw [hsc] at hag
-          exact hag.bind
+          exact hag.bind hfx
         have hdum' : lookup ((x, v₁) :: ρ) dummySym = none := by
           simp only [lookup]
           have : ¬ dummySym = x := fun h => hx h.symm
           simp [this, hdum]
-        obtain ⟨hok2, herr2⟩ := h3 fn upv fv h n ((x, v₁) :: ρ) (stk ++ [v₁]) hseg.right htab
+        obtain ⟨hok2, herr2⟩ := h3 K n (by omega) fn upv fv h ((x, v₁) :: ρ) (stk ++ [v₁]) hseg.right htab
           (by simp [hz', hlen]) hag' hdum'
         refine ⟨fun v hv => ?_, fun he => ?_⟩
         · obtain ⟨L, hL, ex2⟩ := hok2 v hv
           refine ⟨[v₁] ++ L, by simp [hL, Nat.add_comm], ?_⟩
-          have := ex1.trans ex2
-          simpa [Nat.add_assoc] using this
+          exact (ex2.prepend ex1).to (by simp [Nat.add_assoc]) (by simp)
         · exact ex1.thenErr (herr2 he)
   | .call f args, hF => by
     simp only [inF, Bool.and_eq_true] at hF
@@ -2175,8 +2156,8 @@ theorem body_spec (seIdx : Nat) : ∀ (e : Expr), inF e = true → BodySpec seId
       match args, hlen2, haF, hhd with
       | [lhs, rhs], _, haF, hhd =>
         simp only [inFs, Bool.and_eq_true] at haF
-        have w1 := wrap_of_body (body_spec seIdx lhs haF.1)
-        have w2 := wrap_of_body (body_spec seIdx rhs haF.2.1)
+        have w1 := wrap_of_body (body_spec seIdx Φ lhs haF.1)
+        have w2 := wrap_of_body (body_spec seIdx Φ rhs haF.2.1)
         have hhd' : headOf f 2 = .prim op := by simpa using hhd
         intro tail b st S rest hsc
         obtain ⟨hs1, hz1, hx1, hd1⟩ := w1 false b st
@@ -2186,12 +2167,12 @@ theorem body_spec (seIdx : Nat) : ∀ (e : Expr), inF e = true → BodySpec seId
         refine ⟨[], by simp [FState.emit, hs2, hs1, hsc], ?_,
           (hx1.trans hx2).trans (same_emit _ _).ext, ?_⟩
         · simp [FState.emit, adjustSize, adjust_prim, hz2, hz1]
-        · intro fn upv fv h fuel ρ stk hseg htab hlen hag hdum
+        · intro K fuel hK fn upv fv h ρ stk hseg htab hlen hag hdum
           have htab2 := htab.of_ext (same_emit _ _).ext
           cases fuel with
           | zero => simp [evalCore]
           | succ n =>
-            obtain ⟨hok1, herr1⟩ := hd1 fn upv fv h n ρ stk hseg.left.left (htab2.of_ext hx2)
+            obtain ⟨hok1, herr1⟩ := hd1 K n (by omega) fn upv fv h ρ stk hseg.left.left (htab2.of_ext hx2)
               hlen hag hdum
             simp only [evalCore, List.length_cons, List.length_nil, hhd']
             cases he1 : evalCore n ρ lhs with
@@ -2200,8 +2181,8 @@ theorem body_spec (seIdx : Nat) : ∀ (e : Expr), inF e = true → BodySpec seId
               simp at he; subst he
               exact herr1 he1
             | ok x =>
-              have ex1 := hok1 x he1
-              obtain ⟨hok2, herr2⟩ := hd2 fn upv fv h n ρ (stk ++ [x]) hseg.left.right htab2
+              have ex1 := (hok1 x he1).exec
+              obtain ⟨hok2, herr2⟩ := hd2 K n (by omega) fn upv fv h ρ (stk ++ [x]) hseg.left.right htab2
                 (by simp [hz1, hlen]) (by rw [hs1]; exact hag.append [x]) hdum
               cases he2 : evalCore n ρ rhs with
               | error err =>
@@ -2209,7 +2190,7 @@ theorem body_spec (seIdx : Nat) : ∀ (e : Expr), inF e = true → BodySpec seId
                 simp at he; subst he
                 exact ex1.thenErr (herr2 he2)
               | ok y =>
-                have ex2 := ex1.trans (hok2 y he2)
+                have ex2 := ex1.trans (hok2 y he2).exec
                 have hop := hseg.right.head
                 rw [List.length_append, ← Nat.add_assoc] at hop
                 have hst := step_prim fn upv op
@@ -2221,7 +2202,7 @@ theorem body_spec (seIdx : Nat) : ∀ (e : Expr), inF e = true → BodySpec seId
                 · simp only [] at hv
                   rw [hv] at hst
                   have := ex2.trans (Exec.step hop hst)
-                  simpa [Nat.add_assoc] using this
+                  exact Done.of_exec (by simpa [Nat.add_assoc] using this)
                 · simp only [] at he
                   rw [he] at hst
                   exact ex2.thenErr (ExecErr.step hop hst)
@@ -2230,8 +2211,8 @@ theorem body_spec (seIdx : Nat) : ∀ (e : Expr), inF e = true → BodySpec seId
       match args, hlen2, haF, hhd with
       | [lhs, rhs], _, haF, hhd =>
         simp only [inFs, Bool.and_eq_true] at haF
-        have w1 := wrap_of_body (body_spec seIdx lhs haF.1)
-        have w2 := wrap_of_body (body_spec seIdx rhs haF.2.1)
+        have w1 := wrap_of_body (body_spec seIdx Φ lhs haF.1)
+        have w2 := wrap_of_body (body_spec seIdx Φ rhs haF.2.1)
         have hhd' : headOf f 2 = .and_ := by simpa using hhd
         intro tail b st S rest hsc
         obtain ⟨hs1, hz1, hx1, hd1⟩ := w1 false b st
@@ -2244,11 +2225,11 @@ theorem body_spec (seIdx : Nat) : ∀ (e : Expr), inF e = true → BodySpec seId
         refine ⟨[], ?_, ?_, (hx1.trans hmx).trans hx2, ?_⟩
         · simp only [hs2, andMid_scopes, hs1, hsc, List.nil_append]
         · simp only [hz2, hms, List.length_nil, Nat.add_zero]
-        intro fn upv fv h fuel ρ stk hseg htab hlen hag hdum
+        intro K fuel hK fn upv fv h ρ stk hseg htab hlen hag hdum
         cases fuel with
         | zero => simp [evalCore]
         | succ n =>
-          obtain ⟨hok1, herr1⟩ := hd1 fn upv fv h n ρ stk hseg.left.left
+          obtain ⟨hok1, herr1⟩ := hd1 K n (by omega) fn upv fv h ρ stk hseg.left.left
             (htab.of_ext (hmx.trans hx2)) hlen hag hdum
           simp only [evalCore, List.length_cons, List.length_nil, hhd']
           cases he1 : evalCore n ρ lhs with
@@ -2257,14 +2238,14 @@ theorem body_spec (seIdx : Nat) : ∀ (e : Expr), inF e = true → BodySpec seId
             simp at he; subst he
             exact herr1 he1
           | ok x =>
-            have ex1 := hok1 x he1
+            have ex1 := (hok1 x he1).exec
             have hmid := hseg.left.right
             have hcj := hmid.head
             have hcv := hmid.tail.head
             have hjm := hmid.tail.tail.head
             have hseg2 := hseg.right.to (q := b + (compileE seIdx lhs false b st).1.length + 3)
               (by simp only [List.length_append, List.length_cons, List.length_nil]; omega)
-            obtain ⟨hok2, herr2⟩ := hd2 fn upv fv h n ρ stk hseg2 htab
+            obtain ⟨hok2, herr2⟩ := hd2 K n (by omega) fn upv fv h ρ stk hseg2 htab
               (by simp [hms, hlen]) (by rw [andMid_scopes, hs1]; exact hag) hdum
             by_cases hx : isFalse x = true
             · refine ⟨fun v hv => ⟨[], rfl, ?_⟩, fun he => by simp [hx] at he⟩
@@ -2277,16 +2258,16 @@ theorem body_spec (seIdx : Nat) : ∀ (e : Expr), inF e = true → BodySpec seId
                 (step_pushTag fn upv _ 0 stk h)
               have e4 := Exec.step (stk := stk ++ [tagVal 0]) (upv := upv) (h := h) hjm
                 (step_jump fn upv _ _ _ h)
-              exact (((ex1.trans e2).trans e3).trans e4).to
+              exact Done.of_exec ((((ex1.trans e2).trans e3).trans e4).to
                 (by simp only [List.length_append, List.length_cons, List.length_nil]; omega)
-                (by simp)
+                (by simp))
             · have e2 := Exec.step (upv := upv) (h := h) hcj
                 (by rw [step_cJump]; simp [hx] :
                   stepInstr fn upv _ _ (stk ++ [x]) h =
                     .next (b + (compileE seIdx lhs false b st).1.length + 3) stk h)
               refine ⟨fun v hv => ⟨[], rfl, ?_⟩, fun he => ?_⟩
               · simp [hx] at hv
-                exact ((ex1.trans e2).trans (hok2 v hv)).to
+                exact ((hok2 v hv).prepend (ex1.trans e2)).to
                   (by simp only [List.length_append, List.length_cons, List.length_nil]; omega)
                   (by simp)
               · simp [hx] at he
@@ -2296,8 +2277,8 @@ theorem body_spec (seIdx : Nat) : ∀ (e : Expr), inF e = true → BodySpec seId
       match args, hlen2, haF, hhd with
       | [lhs, rhs], _, haF, hhd =>
         simp only [inFs, Bool.and_eq_true] at haF
-        have w1 := wrap_of_body (body_spec seIdx lhs haF.1)
-        have w2 := wrap_of_body (body_spec seIdx rhs haF.2.1)
+        have w1 := wrap_of_body (body_spec seIdx Φ lhs haF.1)
+        have w2 := wrap_of_body (body_spec seIdx Φ rhs haF.2.1)
         have hhd' : headOf f 2 = .or_ := by simpa using hhd
         intro tail b st S rest hsc
         obtain ⟨hs1, hz1, hx1, hd1⟩ := w1 false b st
@@ -2318,12 +2299,12 @@ theorem body_spec (seIdx : Nat) : ∀ (e : Expr), inF e = true → BodySpec seId
         · simp only [FState.emit] at hmsc
           simp only [FState.emit, hs2, hmsc, hsc, List.nil_append]
         · simp [FState.emit, adjustSize, Instr.adjust, hz2, hz1]
-        intro fn upv fv h fuel ρ stk hseg htab hlen hag hdum
+        intro K fuel hK fn upv fv h ρ stk hseg htab hlen hag hdum
         have htab2 := htab.of_ext hfin
         cases fuel with
         | zero => simp [evalCore]
         | succ n =>
-          obtain ⟨hok1, herr1⟩ := hd1 fn upv fv h n ρ stk hseg.left.left.left
+          obtain ⟨hok1, herr1⟩ := hd1 K n (by omega) fn upv fv h ρ stk hseg.left.left.left
             (htab2.of_ext (hmx.trans hx2)) hlen hag hdum
           simp only [evalCore, List.length_cons, List.length_nil, hhd']
           cases he1 : evalCore n ρ lhs with
@@ -2332,14 +2313,14 @@ theorem body_spec (seIdx : Nat) : ∀ (e : Expr), inF e = true → BodySpec seId
             simp at he; subst he
             exact herr1 he1
           | ok x =>
-            have ex1 := hok1 x he1
+            have ex1 := (hok1 x he1).exec
             have hcj := hseg.left.left.right.head
             have htl := hseg.right
             have hjm := htl.head
             have hcv := htl.tail.head
             have hseg2 := hseg.left.right.to (q := b + (compileE seIdx lhs false b st).1.length + 1)
               (by simp only [List.length_append, List.length_cons, List.length_nil]; omega)
-            obtain ⟨hok2, herr2⟩ := hd2 fn upv fv h n ρ stk hseg2 htab2
+            obtain ⟨hok2, herr2⟩ := hd2 K n (by omega) fn upv fv h ρ stk hseg2 htab2
               (by simp [hms, hlen]) (by rw [hmsc]; exact hag) hdum
             by_cases hx : isFalse x = true
             · have e2 := Exec.step (upv := upv) (h := h) hcj
@@ -2348,14 +2329,14 @@ theorem body_spec (seIdx : Nat) : ∀ (e : Expr), inF e = true → BodySpec seId
                     .next (b + (compileE seIdx lhs false b st).1.length + 1) stk h)
               refine ⟨fun v hv => ⟨[], rfl, ?_⟩, fun he => ?_⟩
               · simp [hx] at hv
-                have e3 := ((ex1.trans e2).trans (hok2 v hv)).to
+                have e3 := ((hok2 v hv).prepend (ex1.trans e2)).to
                   (q := b + ((compileE seIdx lhs false b st).1 ++
                     [Instr.cJump (b + (compileE seIdx lhs false b st).1.length + 1 + X2.1.length + 1)]
                     ++ X2.1).length)
                   (by simp only [List.length_append, List.length_cons, List.length_nil]; omega) rfl
                 have e4 := Exec.step (stk := stk ++ [v]) (upv := upv) (h := h) hjm
                   (step_jump fn upv _ _ _ h)
-                exact (e3.trans e4).to
+                exact (e3.andThen e4).to
                   (by simp only [List.length_append, List.length_cons, List.length_nil]; omega)
                   (by simp)
               · simp [hx] at he
@@ -2372,27 +2353,116 @@ theorem body_spec (seIdx : Nat) : ∀ (e : Expr), inF e = true → BodySpec seId
                   (by simp only [List.length_append, List.length_cons, List.length_nil]; omega) rfl
               have e3 := Exec.step (stk := stk) (upv := upv) (h := h) hcv
                 (step_pushTag fn upv _ 1 stk h)
-              exact ((ex1.trans e2).trans e3).to
+              exact Done.of_exec (((ex1.trans e2).trans e3).to
                 (by simp only [List.length_append, List.length_cons, List.length_nil]; omega)
-                (by simp)
+                (by simp))
     | otherPrim => simp [hhd] at hh
-    | none => simp [hhd] at hh
+    | none =>
+      -- a call `g a₁ … aₙ` of a function variable with exactly its arity
+      match f, hh, hhd with
+      | .ident g, hh, hhd =>
+        simp only [hhd, beq_iff_eq] at hh
+        have ha := args_spec seIdx Φ args haF
+        intro tail b st S rest hsc
+        obtain ⟨hs1, hz1, hx1, hl1, hd1⟩ := head_spec seIdx Φ g b st
+        obtain ⟨hs2, hz2, hx2, hd2⟩ := ha (b + (compileE seIdx (.ident g) false b st).1.length)
+          (compileE seIdx (.ident g) false b st).2
+        rw [compileBody_call _ _ _ _ _ _ hhd]
+        generalize hX1 : compileE seIdx (.ident g) false b st = X1 at *
+        generalize hX2 : compileArgs seIdx args (b + X1.1.length) X1.2 = X2 at *
+        have hadj : (if tail then Instr.tailCall args.length else Instr.call args.length).adjust =
+            -(args.length : Int) := by cases tail <;> rfl
+        refine ⟨[], by simp [FState.emit, hs2, hs1, hsc], ?_, (hx1.trans hx2).trans (same_emit _ _).ext, ?_⟩
+        · simp only [FState.emit, hz2, hz1, List.length_nil, Nat.add_zero]
+          exact adjustSize_call _ args.length st.stackSize hadj
+        · intro K fuel hK fn upv fv h ρ stk hseg htab hlen hag hdum
+          have htab2 := htab.of_ext (same_emit _ _).ext
+          cases fuel with
+          | zero => simp [evalCore]
+          | succ n =>
+            simp only [evalCore, hhd]
+            cases n with
+            | zero => simp [evalCore]
+            | succ k =>
+              simp only [evalCore]
+              cases hlk : lookup ρ g with
+              | none => simp
+              | some fv' =>
+                obtain ⟨v', hr, exf⟩ := hd1 fn upv fv K h ρ stk fv' hseg.left.left (htab2.of_ext hx2)
+                  hag hlk
+                simp only [RV, hh] at hr
+                obtain ⟨cs, idx, env, id, gf, gupv, nm, params, body, rfl, rfl, hg, hcs, hpl, hn0, hga,
+                  hsem⟩ := hr
+                obtain ⟨hok2, herr2⟩ := hd2 K (k + 1) (by omega) fn upv fv h ρ (stk ++ [Val.cref id])
+                  (hseg.left.right.to (by rw [hl1])) htab2 (by simp [hz1, hlen])
+                  (by rw [hs1]; exact hag.append _) hdum
+                have exf' : Exec fn upv h b stk (b + X1.1.length) (stk ++ [Val.cref id]) :=
+                  exf.to (by rw [hl1]) rfl
+                cases hev : evalList (k + 1) ρ args with
+                | error err =>
+                  refine ⟨fun v hv => by simp at hv, fun he => ?_⟩
+                  simp at he; subst he
+                  exact exf'.thenErr (herr2 hev)
+                | ok vs =>
+                  have hvl := evalList_length (k + 1) ρ args vs hev
+                  have exa := exf'.trans (hok2 vs hev)
+                  have hinstr := hseg.right.head
+                  rw [show b + (X1.1 ++ X2.1).length = b + X1.1.length + X2.1.length by
+                    simp [Nat.add_assoc], ← hvl] at hinstr
+                  obtain ⟨hsok, hserr⟩ := hsem k vs (by omega) hvl
+                  have htake : List.take params.length vs = vs :=
+                    List.take_of_length_le (by rw [hvl, hpl]; exact Nat.le_refl _)
+                  have hnl : ¬ vs.length < params.length := by rw [hvl, hpl]; exact Nat.lt_irrefl _
+                  have hp0 : ¬ params.length = 0 := by rw [hpl]; exact hn0
+                  simp only [apply, hcs, hp0, if_false, hnl, htake]
+                  cases hb : evalCore k (bindAll params vs (recEnv cs env)) body with
+                  | error err =>
+                    refine ⟨fun v hv => by simp at hv, fun he => ?_⟩
+                    simp at he; subst he
+                    refine ExecErr.incall (s := stk) (id := id) (args := vs) exa ?_ hg
+                      (by rw [hga, hvl]) (hserr hb)
+                    cases tail
+                    · exact Or.inl (by simpa using hinstr)
+                    · exact Or.inr (by simpa using hinstr)
+                  | ok r =>
+                    have hret := hsok r hb
+                    have heq : vs.length = params.length := by rw [hvl, hpl]
+                    refine ⟨fun v hv => ⟨[], rfl, ?_⟩, fun he => by simp [heq] at he⟩
+                    simp [heq] at hv; subst hv
+                    cases tail with
+                    | false =>
+                      have hi : fn.instrs[b + X1.1.length + X2.1.length]? = some (.call vs.length) := by
+                        simpa using hinstr
+                      have := Exec.call (fn := fn) (upv := upv) (stk := stk) (id := id) (args := vs)
+                        (v := r) hi hg (by rw [hga, hvl]) hret (Exec.refl _ _)
+                      exact Done.of_exec ((exa.trans this).to (by simp [Nat.add_assoc]) (by simp))
+                    | true =>
+                      have hi : fn.instrs[b + X1.1.length + X2.1.length]? = some (.tailCall vs.length) := by
+                        simpa using hinstr
+                      exact Or.inr ⟨rfl, _, stk, id, vs, gf, gupv, exa, hi, hg, by rw [hga, hvl], hret⟩
+      | .const _, hh, hhd => simp [hhd] at hh
+      | .call _ _, hh, hhd => simp [hhd] at hh
+      | .data _ _, hh, hhd => simp [hhd] at hh
+      | .letE _ _ _, hh, hhd => simp [hhd] at hh
+      | .letRec _ _, hh, hhd => simp [hhd] at hh
+      | .match_ _ _, hh, hhd => simp [hhd] at hh
+      | .cast _, hh, hhd => simp [hhd] at hh
   | .data k args, hF => by
     match k, hF with
     | .variant (some t), hF =>
-      have ha := args_spec seIdx args (by simpa [inF] using hF)
+      have ha := args_spec seIdx Φ args (by simpa [inF] using hF)
       intro tail b st S rest hsc
       obtain ⟨hs1, hz1, hx1, hd1⟩ := ha b st
       refine ⟨[], by simp [compileBody, FState.emit, hs1, hsc], ?_,
         by simpa [compileBody] using hx1.trans (same_emit _ _).ext, ?_⟩
       · simp only [compileBody, FState.emit, hz1]
         simpa using adjustSize_construct (.constructVariant t args.length) args.length st.stackSize rfl
-      · intro fn upv fv h fuel ρ stk hseg htab hlen hag hdum
+      · intro K fuel hK fn upv fv h ρ stk hseg htab hlen hag hdum
         simp only [compileBody] at hseg htab ⊢
         cases fuel with
         | zero => simp [evalCore]
         | succ n =>
-          obtain ⟨hok1, herr1⟩ := hd1 fn upv fv h n ρ stk hseg.left
+          obtain ⟨hok1, herr1⟩ := hd1 K n (by omega) fn upv fv h ρ stk hseg.left
             (htab.of_ext (same_emit _ _).ext) hlen hag hdum
           simp only [evalCore]
           cases he1 : evalList n ρ args with
@@ -2406,21 +2476,21 @@ theorem body_spec (seIdx : Nat) : ∀ (e : Expr), inF e = true → BodySpec seId
             have hvl := evalList_length n ρ args vs he1
             have := (hok1 vs he1).trans (Exec.step hseg.right.head
               (step_constructVariant fn upv _ stk vs h t args.length hvl))
-            simpa [Nat.add_assoc] using this
+            exact Done.of_exec (by simpa [Nat.add_assoc] using this)
     | .array, hF =>
-      have ha := args_spec seIdx args (by simpa [inF] using hF)
+      have ha := args_spec seIdx Φ args (by simpa [inF] using hF)
       intro tail b st S rest hsc
       obtain ⟨hs1, hz1, hx1, hd1⟩ := ha b st
       refine ⟨[], by simp [compileBody, FState.emit, hs1, hsc], ?_,
         by simpa [compileBody] using hx1.trans (same_emit _ _).ext, ?_⟩
       · simp only [compileBody, FState.emit, hz1]
         simpa using adjustSize_construct (.constructArray args.length) args.length st.stackSize rfl
-      · intro fn upv fv h fuel ρ stk hseg htab hlen hag hdum
+      · intro K fuel hK fn upv fv h ρ stk hseg htab hlen hag hdum
         simp only [compileBody] at hseg htab ⊢
         cases fuel with
         | zero => simp [evalCore]
         | succ n =>
-          obtain ⟨hok1, herr1⟩ := hd1 fn upv fv h n ρ stk hseg.left
+          obtain ⟨hok1, herr1⟩ := hd1 K n (by omega) fn upv fv h ρ stk hseg.left
             (htab.of_ext (same_emit _ _).ext) hlen hag hdum
           simp only [evalCore]
           cases he1 : evalList n ρ args with
@@ -2434,9 +2504,9 @@ theorem body_spec (seIdx : Nat) : ∀ (e : Expr), inF e = true → BodySpec seId
             have hvl := evalList_length n ρ args vs he1
             have := (hok1 vs he1).trans (Exec.step hseg.right.head
               (step_constructArray fn upv _ stk vs h args.length hvl))
-            simpa [Nat.add_assoc] using this
+            exact Done.of_exec (by simpa [Nat.add_assoc] using this)
     | .record names, hF =>
-      have ha := args_spec seIdx args (by simpa [inF] using hF)
+      have ha := args_spec seIdx Φ args (by simpa [inF] using hF)
       intro tail b st S rest hsc
       obtain ⟨hs1, hz1, hx1, hd1⟩ := ha b st
       obtain ⟨hget, hxr, hsr, hzr⟩ := addRecord_spec (compileArgs seIdx args b st).2 names
@@ -2447,12 +2517,12 @@ theorem body_spec (seIdx : Nat) : ∀ (e : Expr), inF e = true → BodySpec seId
         simpa using adjustSize_construct
           (.constructRecord ((compileArgs seIdx args b st).2.addRecord names).1 args.length)
           args.length st.stackSize rfl
-      · intro fn upv fv h fuel ρ stk hseg htab hlen hag hdum
+      · intro K fuel hK fn upv fv h ρ stk hseg htab hlen hag hdum
         have htab2 := htab.of_ext (same_emit _ _).ext
         cases fuel with
         | zero => simp [evalCore]
         | succ n =>
-          obtain ⟨hok1, herr1⟩ := hd1 fn upv fv h n ρ stk hseg.left (htab2.of_ext hxr) hlen hag hdum
+          obtain ⟨hok1, herr1⟩ := hd1 K n (by omega) fn upv fv h ρ stk hseg.left (htab2.of_ext hxr) hlen hag hdum
           simp only [evalCore]
           cases he1 : evalList n ρ args with
           | error err =>
@@ -2467,16 +2537,16 @@ theorem body_spec (seIdx : Nat) : ∀ (e : Expr), inF e = true → BodySpec seId
               prefix_getElem? htab2.2.2 hget
             have := (hok1 vs he1).trans (Exec.step hseg.right.head
               (step_constructRecord fn upv _ stk vs h _ args.length names hvl hr))
-            simpa [Nat.add_assoc] using this
+            exact Done.of_exec (by simpa [Nat.add_assoc] using this)
     | .variant none, hF => simp [inF] at hF
   | .letRec _ _, hF => by simp [inF] at hF
   | .match_ s alts, hF => by
     simp only [inF, Bool.and_eq_true] at hF
     obtain ⟨⟨hsF, haF⟩, hshape⟩ := hF
-    have hws := wrap_of_body (body_spec seIdx s hsF)
-    have has := alts_spec seIdx alts haF
+    have hws := wrap_of_body (body_spec seIdx Φ s hsF)
+    have has := alts_spec seIdx Φ alts haF
     by_cases hall : alts.all (fun a => !isRec a.1) = true
-    · refine match_spec hws (inAlts_patOk alts haF) (fun a ha => ?_) has
+    · refine match_spec hws (inAlts_patOk Φ alts haF) (fun a ha => ?_) has
       have := List.all_eq_true.mp hall a ha
       simpa using this
     · have hone : alts.length = 1 := by
@@ -2490,18 +2560,383 @@ theorem body_spec (seIdx : Nat) : ∀ (e : Expr), inF e = true → BodySpec seId
           cases hp : isRec p with
           | true => rfl
           | false => simp [hp] at hall
-        exact match_spec_record hws (inAlts_patOk _ haF (p, e) (by simp)) hr has
-theorem alts_spec (seIdx : Nat) : ∀ (alts : List (Pat × Expr)), inAlts alts = true →
-    AltsSpec seIdx alts
-  | [], _ => alts_nil seIdx
+        exact match_spec_record hws (inAlts_patOk Φ _ haF (p, e) (by simp)) hr has
+theorem alts_spec (seIdx : Nat) (Φ : List (Sym × Nat)) : ∀ (alts : List (Pat × Expr)),
+    inAlts Φ alts = true → AltsSpec seIdx Φ alts
+  | [], _ => alts_nil seIdx Φ
   | (p, e) :: alts, hF => by
     simp only [inAlts, Bool.and_eq_true] at hF
-    exact alts_cons hF.1.1 (wrap_of_body (body_spec seIdx e hF.1.2)) (alts_spec seIdx alts hF.2)
-theorem args_spec (seIdx : Nat) : ∀ (es : List Expr), inFs es = true → ArgsSpec seIdx es
-  | [], _ => args_nil seIdx
+    exact alts_cons hF.1.1.1 hF.1.1.2 (wrap_of_body (body_spec seIdx Φ e hF.1.2))
+      (alts_spec seIdx Φ alts hF.2)
+theorem args_spec (seIdx : Nat) (Φ : List (Sym × Nat)) : ∀ (es : List Expr), inFs Φ es = true →
+    ArgsSpec seIdx Φ es
+  | [], _ => args_nil seIdx Φ
   | e :: es, hF => by
     simp only [inFs, Bool.and_eq_true] at hF
-    exact args_cons (wrap_of_body (body_spec seIdx e hF.1)) (args_spec seIdx es hF.2)
+    exact args_cons (wrap_of_body (body_spec seIdx Φ e hF.1)) (args_spec seIdx Φ es hF.2)
 end
+
+/-! ### From frames to the whole machine -/
+
+theorem run_succ (n : Nat) (s : State) :
+    run (n + 1) s = (match step s with
+      | .running s' => run n s'
+      | .done v h => .ok (v, h)
+      | .err e => .error e) := rfl
+
+theorem step_of_local {s : State} {fr : Frame} {rest : List Frame} {fn : Fn} {upv : List Val}
+    {pc' : Nat} {loc' : List Val} {h' : Heap}
+    (hf : s.frames = fr :: rest) (hc : s.heap.clos[fr.clos]? = some (fn, upv))
+    (hs : stepLocal fn upv fr.pc (s.stack.drop fr.offset) s.heap = .next pc' loc' h') :
+    step s = .running { stack := s.stack.take fr.offset ++ loc',
+                        frames := { fr with pc := pc' } :: rest, heap := h' } := by
+  simp [step, hf, hc, hs]
+
+theorem step_of_local_err {s : State} {fr : Frame} {rest : List Frame} {fn : Fn} {upv : List Val}
+    {e : Err}
+    (hf : s.frames = fr :: rest) (hc : s.heap.clos[fr.clos]? = some (fn, upv))
+    (hs : stepLocal fn upv fr.pc (s.stack.drop fr.offset) s.heap = .err e) :
+    step s = .err e := by
+  simp [step, hf, hc, hs]
+
+/-- `Call n`, exact arity: a frame for the callee is pushed (thread.rs :2183, :2752, :2711) -/
+theorem step_call {fn g : Fn} {upv gupv : List Val} {h : Heap} {pc id : Nat}
+    {below stk args : List Val} {fr : Frame} {rest : List Frame}
+    (ho : fr.offset = below.length)
+    (hc : h.clos[fr.clos]? = some (fn, upv)) (hi : fn.instrs[pc]? = some (.call args.length))
+    (hg : h.clos[id]? = some (g, gupv)) (hn : g.args = args.length) :
+    step ⟨below ++ (stk ++ [Val.cref id] ++ args), ({ fr with pc := pc } : Frame) :: rest, h⟩ =
+      .running ⟨below ++ stk ++ [Val.cref id] ++ args,
+        (⟨(below ++ stk ++ [Val.cref id]).length, false, id, 0⟩ : Frame) ::
+          ({ fr with pc := pc + 1 } : Frame) :: rest, h⟩ := by
+  have hidx : (below ++ (stk ++ [Val.cref id] ++ args))[(below ++ (stk ++ [Val.cref id] ++ args)).length - 1 - args.length]?
+      = some (Val.cref id) := by
+    have : (below ++ (stk ++ [Val.cref id] ++ args)).length - 1 - args.length = (below ++ stk).length := by
+      simp; omega
+    have e1 : below ++ (stk ++ [Val.cref id] ++ args) = (below ++ stk) ++ (Val.cref id :: args) := by
+      simp
+    rw [this, e1, List.getElem?_append_right (Nat.le_refl _)]
+    simp
+  have hlen : ¬ ((below ++ (stk ++ [Val.cref id] ++ args)).length < args.length + 1) := by simp; omega
+  simp only [step, hc, stepLocal, hi, stepInstr, doCall, hlen, if_false, hidx, calleeOf, hg,
+    Option.map_some, callWith, Callee.args, hn, Nat.lt_irrefl, if_true]
+  simp [ho, ← List.append_assoc]
+
+/-- `Return` (thread.rs :2527): the result slides over the frame and the function slot -/
+theorem step_ret {g : Fn} {gupv : List Val} {h : Heap} {pcR id : Nat}
+    {below s : List Val} {v : Val} {frames : List Frame}
+    (hg : h.clos[id]? = some (g, gupv)) (hret : g.instrs[pcR]? = some .ret) :
+    step ⟨below ++ [Val.cref id] ++ (s ++ [v]),
+        (⟨(below ++ [Val.cref id]).length, false, id, pcR⟩ : Frame) :: frames, h⟩ =
+      .running ⟨below ++ [v], frames, h⟩ := by
+  have hd : List.drop (below ++ [Val.cref id]).length (below ++ [Val.cref id] ++ (s ++ [v]))
+      = s ++ [v] := by simp
+  have hp : popN (below ++ [Val.cref id] ++ (s ++ [v])) ((s ++ [v]).length + 1) = below := by
+    have : below ++ [Val.cref id] ++ (s ++ [v]) = below ++ ([Val.cref id] ++ (s ++ [v])) := by simp
+    rw [this]
+    exact popN_append _ _ _ (by simp)
+  have hst : below ++ [Val.cref id] ++ (s ++ [v]) = (below ++ [Val.cref id] ++ s) ++ [v] := by simp
+  have hgl : (below ++ [Val.cref id] ++ (s ++ [v])).getLast? = some v := by
+    rw [hst]; exact getLast?_snoc _ v
+  have hlen : ¬ ((below ++ [Val.cref id] ++ (s ++ [v])).length < (s ++ [v]).length + 1) := by
+    simp
+  simp only [step, hg, stepLocal, hd, hret, stepInstr, hlen, if_false, hgl, hp]
+  simp
+
+/-- `TailCall n`, exact arity, frame without excess arguments (thread.rs :2188): the frame and
+    its function slot are removed, the callee gets a frame in their place -/
+theorem step_tailCall {fn g : Fn} {upv gupv : List Val} {h : Heap} {pc id id' : Nat}
+    {below s args : List Val} {frames : List Frame}
+    (hc : h.clos[id]? = some (fn, upv)) (hi : fn.instrs[pc]? = some (.tailCall args.length))
+    (hg : h.clos[id']? = some (g, gupv)) (hn : g.args = args.length) :
+    step ⟨below ++ [Val.cref id] ++ (s ++ [Val.cref id'] ++ args),
+        (⟨(below ++ [Val.cref id]).length, false, id, pc⟩ : Frame) :: frames, h⟩ =
+      .running ⟨below ++ [Val.cref id'] ++ args,
+        (⟨(below ++ [Val.cref id']).length, false, id', 0⟩ : Frame) :: frames, h⟩ := by
+  have hd : List.drop (below ++ [Val.cref id]).length
+      (below ++ [Val.cref id] ++ (s ++ [Val.cref id'] ++ args)) = s ++ [Val.cref id'] ++ args := by simp
+  have hl1 : ¬ ((s ++ [Val.cref id'] ++ args).length < args.length + 1) := by simp
+  have hstk : List.take ((below ++ [Val.cref id] ++ (s ++ [Val.cref id'] ++ args)).length - args.length - 1 -
+        ((s ++ [Val.cref id'] ++ args).length - args.length))
+      (below ++ [Val.cref id] ++ (s ++ [Val.cref id'] ++ args)) ++
+      List.drop ((below ++ [Val.cref id] ++ (s ++ [Val.cref id'] ++ args)).length - args.length - 1)
+      (below ++ [Val.cref id] ++ (s ++ [Val.cref id'] ++ args)) = below ++ (Val.cref id' :: args) := by
+    have e1 : (below ++ [Val.cref id] ++ (s ++ [Val.cref id'] ++ args)).length - args.length - 1 =
+        (below ++ [Val.cref id] ++ s).length := by simp; omega
+    have e2 : (below ++ [Val.cref id] ++ (s ++ [Val.cref id'] ++ args)).length - args.length - 1 -
+        ((s ++ [Val.cref id'] ++ args).length - args.length) = below.length := by simp; omega
+    have e3 : below ++ [Val.cref id] ++ (s ++ [Val.cref id'] ++ args) =
+        (below ++ [Val.cref id] ++ s) ++ (Val.cref id' :: args) := by simp
+    rw [e2, e1]
+    congr 1
+    · rw [show below ++ [Val.cref id] ++ (s ++ [Val.cref id'] ++ args) =
+          below ++ ([Val.cref id] ++ (s ++ [Val.cref id'] ++ args)) by simp]
+      exact List.take_left' rfl
+    · rw [e3]; exact List.drop_left' rfl
+  have hidx : (below ++ (Val.cref id' :: args))[(below ++ (Val.cref id' :: args)).length - 1 - args.length]?
+      = some (Val.cref id') := by
+    have : (below ++ (Val.cref id' :: args)).length - 1 - args.length = below.length := by simp
+    rw [this, List.getElem?_append_right (Nat.le_refl _)]
+    simp
+  have hl2 : ¬ ((below ++ (Val.cref id' :: args)).length < args.length + 1) := by simp
+  simp only [step, hc, stepLocal, hd, hi, stepInstr, hl1, if_false, Bool.false_eq_true, hstk,
+    doCall, hl2, hidx, calleeOf, hg, Option.map_some, callWith, Callee.args, hn, Nat.lt_irrefl,
+    if_true]
+  simp
+  omega
+
+mutual
+/-- A derivation of `Exec` is a run of the whole machine, in any frame of a closure of that
+    function, whatever lies below the frame on the value stack and in the frame list. -/
+theorem run_of_exec {fn : Fn} {upv : List Val} {h : Heap} {pc : Nat} {stk : List Val} {pc' : Nat}
+    {stk' : List Val} : Exec fn upv h pc stk pc' stk' →
+    ∀ (below : List Val) (fr : Frame) (rest : List Frame), fr.offset = below.length →
+      h.clos[fr.clos]? = some (fn, upv) →
+      ∃ n, ∀ m,
+        run (n + m) ⟨below ++ stk, ({ fr with pc := pc } : Frame) :: rest, h⟩ =
+        run m ⟨below ++ stk', ({ fr with pc := pc' } : Frame) :: rest, h⟩
+  | .refl _ _, _, _, _, _, _ => ⟨0, by simp⟩
+  | .cons (pc₁ := pc₁) (stk₁ := stk₁) hs a, below, fr, rest, ho, hc => by
+    obtain ⟨n, hn⟩ := run_of_exec a below fr rest ho hc
+    refine ⟨n + 1, fun m => ?_⟩
+    have hstep := step_of_local (s := ⟨below ++ stk, { fr with pc := pc } :: rest, h⟩)
+      (fr := { fr with pc := pc }) (rest := rest) rfl hc (by simpa [ho] using hs)
+    rw [Nat.add_right_comm, run_succ, hstep]
+    simpa [ho] using hn m
+  | .call (stk := stk₀) (id := id) (args := args) (g := g) (gupv := gupv) (v := v) hi hg hn hr a,
+      below, fr, rest, ho, hc => by
+    obtain ⟨n₁, h₁⟩ := run_of_returns hr (below ++ stk₀) id (({ fr with pc := pc + 1 } : Frame) :: rest) hg
+    obtain ⟨n₂, h₂⟩ := run_of_exec a below fr rest ho hc
+    refine ⟨n₁ + n₂ + 1, fun m => ?_⟩
+    have hstep := step_call (below := below) (stk := stk₀) (args := args) (rest := rest) (pc := pc)
+      ho hc hi hg hn
+    have e1 : run (n₁ + n₂ + 1 + m)
+        ⟨below ++ (stk₀ ++ [Val.cref id] ++ args), ({ fr with pc := pc } : Frame) :: rest, h⟩ =
+        run (n₁ + (n₂ + m)) ⟨below ++ stk₀ ++ [Val.cref id] ++ args,
+          (⟨(below ++ stk₀ ++ [Val.cref id]).length, false, id, 0⟩ : Frame) ::
+            ({ fr with pc := pc + 1 } : Frame) :: rest, h⟩ := by
+      rw [show n₁ + n₂ + 1 + m = (n₁ + (n₂ + m)) + 1 by omega, run_succ, hstep]
+    refine e1.trans ((h₁ (n₂ + m)).trans ?_)
+    have := h₂ m
+    simpa [List.append_assoc] using this
+/-- A derivation of `Returns` is a run of the whole machine from the callee's fresh frame to the
+    moment its caller has the result in place of function and arguments. -/
+theorem run_of_returns {g : Fn} {gupv : List Val} {h : Heap} {args : List Val} {v : Val} :
+    Returns g gupv h args v →
+    ∀ (below : List Val) (id : Nat) (frames : List Frame), h.clos[id]? = some (g, gupv) →
+      ∃ n, ∀ m,
+        run (n + m) ⟨below ++ [Val.cref id] ++ args,
+            (⟨(below ++ [Val.cref id]).length, false, id, 0⟩ : Frame) :: frames, h⟩ =
+        run m ⟨below ++ [v], frames, h⟩
+  | .ret (pcR := pcR) (s := s) a hret, below, id, frames, hg => by
+    obtain ⟨n, hn⟩ := run_of_exec a (below ++ [Val.cref id])
+      ⟨(below ++ [Val.cref id]).length, false, id, 0⟩ frames rfl hg
+    refine ⟨n + 1, fun m => ?_⟩
+    have hs := step_ret (below := below) (s := s) (v := v) (frames := frames) hg hret
+    have e1 : run (n + 1 + m) ⟨below ++ [Val.cref id] ++ args,
+          (⟨(below ++ [Val.cref id]).length, false, id, 0⟩ : Frame) :: frames, h⟩ =
+        run (m + 1) ⟨below ++ [Val.cref id] ++ (s ++ [v]),
+          (⟨(below ++ [Val.cref id]).length, false, id, pcR⟩ : Frame) :: frames, h⟩ := by
+      rw [show n + 1 + m = n + (m + 1) by omega]
+      exact hn (m + 1)
+    rw [e1, run_succ, hs]
+  | .tail (pc' := pc') (s := s) (id := id') (args' := args') (g' := g') (gupv' := gupv') a hi hg' hn hr,
+      below, id, frames, hg => by
+    obtain ⟨n₁, h₁⟩ := run_of_exec a (below ++ [Val.cref id])
+      ⟨(below ++ [Val.cref id]).length, false, id, 0⟩ frames rfl hg
+    obtain ⟨n₂, h₂⟩ := run_of_returns hr below id' frames hg'
+    refine ⟨n₁ + n₂ + 1, fun m => ?_⟩
+    have hs := step_tailCall (below := below) (s := s) (args := args') (frames := frames) (pc := pc')
+      hg hi hg' hn
+    have e1 : run (n₁ + n₂ + 1 + m) ⟨below ++ [Val.cref id] ++ args,
+          (⟨(below ++ [Val.cref id]).length, false, id, 0⟩ : Frame) :: frames, h⟩ =
+        run ((n₂ + m) + 1) ⟨below ++ [Val.cref id] ++ (s ++ [Val.cref id'] ++ args'),
+          (⟨(below ++ [Val.cref id]).length, false, id, pc'⟩ : Frame) :: frames, h⟩ := by
+      rw [show n₁ + n₂ + 1 + m = n₁ + ((n₂ + m) + 1) by omega]
+      exact h₁ ((n₂ + m) + 1)
+    rw [e1, run_succ, hs]
+    exact h₂ m
+end
+
+/-- A failing frame makes the whole machine fail with the same error. -/
+theorem run_of_execErr {fn : Fn} {upv : List Val} {h : Heap} {pc : Nat} {stk : List Val} {e : Err} :
+    ExecErr fn upv h pc stk e →
+    ∀ (below : List Val) (id : Nat) (frames : List Frame), h.clos[id]? = some (fn, upv) →
+      ∃ n, ∀ m,
+        run (n + m) ⟨below ++ [Val.cref id] ++ stk,
+            (⟨(below ++ [Val.cref id]).length, false, id, pc⟩ : Frame) :: frames, h⟩ = .error e
+  | .here (pc' := pc') (stk' := stk') a herr, below, id, frames, hc => by
+    obtain ⟨n, hn⟩ := run_of_exec a (below ++ [Val.cref id])
+      ⟨(below ++ [Val.cref id]).length, false, id, 0⟩ frames rfl hc
+    refine ⟨n + 1, fun m => ?_⟩
+    have hstep := step_of_local_err (s := ⟨below ++ [Val.cref id] ++ stk',
+        (⟨(below ++ [Val.cref id]).length, false, id, pc'⟩ : Frame) :: frames, h⟩)
+      (fr := ⟨(below ++ [Val.cref id]).length, false, id, pc'⟩) (rest := frames) rfl hc
+      (by simpa using herr)
+    have e1 : run (n + 1 + m) ⟨below ++ [Val.cref id] ++ stk,
+          (⟨(below ++ [Val.cref id]).length, false, id, pc⟩ : Frame) :: frames, h⟩ =
+        run (m + 1) ⟨below ++ [Val.cref id] ++ stk',
+          (⟨(below ++ [Val.cref id]).length, false, id, pc'⟩ : Frame) :: frames, h⟩ := by
+      rw [show n + 1 + m = n + (m + 1) by omega]
+      exact hn (m + 1)
+    rw [e1, run_succ, hstep]
+  | .incall (pc' := pc') (s := s) (id := id') (args := args) (g := g) (gupv := gupv) a hi hg hn he,
+      below, id, frames, hc => by
+    obtain ⟨n₁, h₁⟩ := run_of_exec a (below ++ [Val.cref id])
+      ⟨(below ++ [Val.cref id]).length, false, id, 0⟩ frames rfl hc
+    rcases hi with hi | hi
+    · obtain ⟨n₂, h₂⟩ := run_of_execErr he (below ++ [Val.cref id] ++ s) id'
+        ((⟨(below ++ [Val.cref id]).length, false, id, pc' + 1⟩ : Frame) :: frames) hg
+      refine ⟨n₁ + n₂ + 1, fun m => ?_⟩
+      have hs := step_call (below := below ++ [Val.cref id]) (stk := s) (args := args)
+        (fr := ⟨(below ++ [Val.cref id]).length, false, id, 0⟩) (rest := frames) (pc := pc')
+        rfl hc hi hg hn
+      have e1 : run (n₁ + n₂ + 1 + m) ⟨below ++ [Val.cref id] ++ stk,
+            (⟨(below ++ [Val.cref id]).length, false, id, pc⟩ : Frame) :: frames, h⟩ =
+          run ((n₂ + m) + 1) ⟨below ++ [Val.cref id] ++ (s ++ [Val.cref id'] ++ args),
+            (⟨(below ++ [Val.cref id]).length, false, id, pc'⟩ : Frame) :: frames, h⟩ := by
+        rw [show n₁ + n₂ + 1 + m = n₁ + ((n₂ + m) + 1) by omega]
+        exact h₁ ((n₂ + m) + 1)
+      rw [e1, run_succ]
+      have hs' : step ⟨below ++ [Val.cref id] ++ (s ++ [Val.cref id'] ++ args),
+            (⟨(below ++ [Val.cref id]).length, false, id, pc'⟩ : Frame) :: frames, h⟩ = _ := hs
+      rw [hs']
+      have := h₂ m
+      simpa [List.append_assoc] using this
+    · obtain ⟨n₂, h₂⟩ := run_of_execErr he below id' frames hg
+      refine ⟨n₁ + n₂ + 1, fun m => ?_⟩
+      have hs := step_tailCall (below := below) (s := s) (args := args) (frames := frames) (pc := pc')
+        hc hi hg hn
+      have e1 : run (n₁ + n₂ + 1 + m) ⟨below ++ [Val.cref id] ++ stk,
+            (⟨(below ++ [Val.cref id]).length, false, id, pc⟩ : Frame) :: frames, h⟩ =
+          run ((n₂ + m) + 1) ⟨below ++ [Val.cref id] ++ (s ++ [Val.cref id'] ++ args),
+            (⟨(below ++ [Val.cref id]).length, false, id, pc'⟩ : Frame) :: frames, h⟩ := by
+        rw [show n₁ + n₂ + 1 + m = n₁ + ((n₂ + m) + 1) by omega]
+        exact h₁ ((n₂ + m) + 1)
+      rw [e1, run_succ, hs]
+      exact h₂ m
+
+/-- A module whose function returns `v`: `runModule` answers `v`. -/
+theorem runModule_of_returns {main : Fn} {globals : List Val} {v : Val}
+    (a : Returns main globals { clos := [(main, globals)], data := [] } [] v) :
+    ∃ n, ∀ m, runModule (n + m) main globals = .ok (v, { clos := [(main, globals)], data := [] }) := by
+  obtain ⟨n, hn⟩ := run_of_returns a [] 0 [] rfl
+  refine ⟨n + 1, fun m => ?_⟩
+  have h1 : runModule (n + 1 + m) main globals =
+      run (m + 1) ⟨[] ++ [v], [], { clos := [(main, globals)], data := [] }⟩ := by
+    rw [show n + 1 + m = n + (m + 1) by omega]
+    exact hn (m + 1)
+  rw [h1, run_succ]
+  simp [step]
+
+theorem runModule_of_execErr {main : Fn} {globals : List Val} {e : Err}
+    (a : ExecErr main globals { clos := [(main, globals)], data := [] } 0 [] e) :
+    ∃ n, ∀ m, runModule (n + m) main globals = .error e :=
+  run_of_execErr a [] 0 [] rfl
+
+/-! ### Closures built by `compile_lambda` are related to their `evalCore` closures -/
+
+/-- **The function `compile_lambda` builds is the closure.** Let `(nm, params, body)` be member
+    `idx` of a group `cs`, `body` inside the fragment (relative to `Φ`), and let heap closure `id`
+    hold the compiled function together with upvalues that represent the free variables of the
+    body (`hup`: by the value itself, or — for function variables — by a related closure). Then
+    `clos cs idx env` and `cref id` are related: entered with `params.length` arguments the
+    function returns what `evalCore` assigns to the body, or fails as it does. -/
+theorem closure_correct (seIdx : Nat) (Φ : List (Sym × Nat)) (cs : Closures) (idx : Nat) (env : Env)
+    (nm : Sym) (params : List Sym) (body : Expr) (hcs : cs[idx]? = some (nm, params, body))
+    (hF : inF Φ body = true) (hp0 : params.length ≠ 0)
+    (hnd : params.contains dummySym = false) (hpf : ∀ a ∈ params, lookupScope Φ a = none)
+    (K : Nat) (h : Heap) (id : Nat) (gupv : List Val)
+    (hg : h.clos[id]? = some (mkFn params.length (compileE seIdx body true 0 (innerStart params)).1
+      (compileE seIdx body true 0 (innerStart params)).2, gupv))
+    (hdum : lookup (recEnv cs env) dummySym = none)
+    (hup : ∀ x w, lookup (recEnv cs env) x = some w →
+      ∀ k, indexOfSym (compileE seIdx body true 0 (innerStart params)).2.freeVars x = some k →
+        ∃ v', gupv[k]? = some v' ∧ RV K h Φ x w v') :
+    CloRel (K + 1) h params.length (.clos cs idx env) (.cref id) := by
+  refine ⟨cs, idx, env, id, _, gupv, nm, params, body, rfl, rfl, hg, hcs, rfl, hp0, rfl, ?_⟩
+  intro fuel vs hK hvl
+  obtain ⟨hsc, hsz⟩ := pushVars_scopes params { FState.empty with scopes := [[]] } [] [] rfl
+  have hsc' : (innerStart params).scopes = (varsOf 0 params ++ []) :: [] := hsc
+  have hsz' : (innerStart params).stackSize = params.length := by
+    have : (innerStart params).stackSize = 0 + params.length := hsz
+    simpa using this
+  obtain ⟨_, _, _, hd⟩ := wrap_of_body (body_spec seIdx Φ body hF) true 0 (innerStart params)
+  have hbase : Agree K h Φ (compileE seIdx body true 0 (innerStart params)).2.freeVars gupv
+      ([] :: []) (recEnv cs env) [] := by
+    intro x w hx
+    exact Or.inr ⟨rfl, hup x w hx⟩
+  have hag := varsOf_agree K h Φ _ gupv params vs [] (recEnv cs env) [] [] hvl.symm hpf hbase
+  obtain ⟨hok, herr⟩ := hd K fuel hK (mkFn params.length (compileE seIdx body true 0 (innerStart params)).1
+      (compileE seIdx body true 0 (innerStart params)).2) gupv
+    (compileE seIdx body true 0 (innerStart params)).2.freeVars h (bindAll params vs (recEnv cs env)) vs
+    (by
+      intro k hk
+      show ((compileE seIdx body true 0 (innerStart params)).1 ++ [Instr.ret])[0 + k]? = _
+      rw [Nat.zero_add, List.getElem?_append_left hk])
+    ⟨List.prefix_refl _, List.prefix_refl _, List.prefix_refl _⟩
+    (by rw [hsz', hvl])
+    (by rw [hsc']; simpa using hag)
+    (bindAll_dummy params vs _ hnd hdum)
+  refine ⟨fun r hr => ?_, herr⟩
+  rcases hok r hr with ex | ⟨_, pc', s, id', args', g', gupv', hex, hi, hg', hn', hret⟩
+  · refine Returns.ret (s := vs) (by simpa using ex) ?_
+    show ((compileE seIdx body true 0 (innerStart params)).1 ++ [Instr.ret])[_]? = _
+    simp
+  · exact Returns.tail hex hi hg' hn' hret
+
+theorem CloRel.mono {K K' : Nat} {h : Heap} {n : Nat} {v v' : Val} (hle : K' ≤ K)
+    (a : CloRel K h n v v') : CloRel K' h n v v' := by
+  obtain ⟨cs, idx, env, id, g, gupv, nm, params, body, h1, h2, h3, h4, h5, h6, h7, h8⟩ := a
+  exact ⟨cs, idx, env, id, g, gupv, nm, params, body, h1, h2, h3, h4, h5, h6, h7,
+    fun fuel vs hf hv => h8 fuel vs (Nat.le_trans hf hle) hv⟩
+
+/-- at fuel 0 nothing is claimed of a closure beyond its shape -/
+theorem CloRel.zero (h : Heap) (cs : Closures) (idx : Nat) (env : Env) (id : Nat) (g : Fn)
+    (gupv : List Val) (nm : Sym) (params : List Sym) (body : Expr)
+    (hg : h.clos[id]? = some (g, gupv)) (hcs : cs[idx]? = some (nm, params, body))
+    (hp0 : params.length ≠ 0) (hga : g.args = params.length) :
+    CloRel 0 h params.length (.clos cs idx env) (.cref id) := by
+  refine ⟨cs, idx, env, id, g, gupv, nm, params, body, rfl, rfl, hg, hcs, rfl, hp0, hga, ?_⟩
+  intro fuel vs hf _
+  have : fuel = 0 := by omega
+  subst this
+  simp [evalCore]
+
+/-- **Recursive groups** (the `evalCore` side of `Named::Recursive`). Let every member `i` of
+    the group `cs` over `env` have a heap closure `ids i` holding the function `compile_lambda`
+    builds for it, with upvalues that represent the free variables of its body: the members of
+    the group by each other's heap closures (this is what `NewClosure … CloseClosure` set up),
+    the other variables as `hout` says, at every fuel. If all bodies are in the fragment
+    relative to a `Φ` that lists the members with their arities, then every member is related to
+    its heap closure at every fuel `K` — by induction on `K`: a recursive call at fuel `K+1`
+    only needs the relation at `K`. -/
+theorem rec_group_correct (seIdx : Nat) (Φ : List (Sym × Nat)) (cs : Closures) (env : Env)
+    (h : Heap) (ids : Nat → Nat) (ups : Nat → List Val)
+    (hmem : ∀ i nm params body, cs[i]? = some (nm, params, body) →
+      inF Φ body = true ∧ params.length ≠ 0 ∧ params.contains dummySym = false ∧
+      (∀ a ∈ params, lookupScope Φ a = none) ∧
+      h.clos[ids i]? = some (mkFn params.length (compileE seIdx body true 0 (innerStart params)).1
+        (compileE seIdx body true 0 (innerStart params)).2, ups i))
+    (hdum : lookup (recEnv cs env) dummySym = none)
+    (hup : ∀ (K : Nat), (∀ i nm params body, cs[i]? = some (nm, params, body) →
+        CloRel K h params.length (.clos cs i env) (.cref (ids i))) →
+      ∀ i nm params body, cs[i]? = some (nm, params, body) →
+      ∀ x w, lookup (recEnv cs env) x = some w →
+      ∀ k, indexOfSym (compileE seIdx body true 0 (innerStart params)).2.freeVars x = some k →
+        ∃ v', (ups i)[k]? = some v' ∧ RV K h Φ x w v') :
+    ∀ (K : Nat) i nm params body, cs[i]? = some (nm, params, body) →
+      CloRel K h params.length (.clos cs i env) (.cref (ids i)) := by
+  intro K
+  induction K with
+  | zero =>
+    intro i nm params body hi
+    obtain ⟨_, hp0, _, _, hg⟩ := hmem i nm params body hi
+    exact CloRel.zero h cs i env (ids i) _ (ups i) nm params body hg hi hp0 rfl
+  | succ K ih =>
+    intro i nm params body hi
+    obtain ⟨hF, hp0, hnd, hpf, hg⟩ := hmem i nm params body hi
+    exact closure_correct seIdx Φ cs i env nm params body hi hF hp0 hnd hpf K h (ids i) (ups i) hg
+      hdum (hup K ih i nm params body hi)
 
 end GluonModel.Proofs.Compile
